@@ -16,875 +16,742 @@ Definition terms (ts : list tok) (t : pt) : string :=
   digest (show_toks (Some ts)) ++ " " ++ digest (show_pt (Some t)) ++ " " ++ digest (show_pt (parse ts)).
 Definition terms_full (ts : list tok) (t : pt) : string :=
   show_toks (Some ts) ++ nl ++ show_pt (Some t) ++ nl ++ show_pt (parse ts).
-Eval vm_compute in ("<<<M9>>>" ++ check (runes_of_ascii "options
-    {
-As= ""1"" ; matchKey = 0123456789 options1
-    =
-0123456789 ;// a // b
-asx// c
-=
-    ""CRC32"" ;
-    tag =00;
-}// trailing space 
-packet
-matchKey { @calculatedFrom(
-    ""abc""	) int32 repeatCount ,
-}
+Eval vm_compute in ("<<<M9>>>" ++ check (runes_of_ascii "MetaData len{
+    zchar
+    // " ++ [128512]%N ++ runes_of_ascii " emoji
+    Header `line1
+line2` ,	}
 ")).
-Eval vm_compute in ("<<<M19>>>" ++ check (runes_of_ascii "// packet A { u8 x, }
-options{lengthOf= 255 // " ++ [27880; 37322]%N ++ runes_of_ascii "
-; /// triple
-}packet MetaDataX {int32  body
-, }")).
-Eval vm_compute in ("<<<M29>>>" ++ check (runes_of_ascii "packet
-tag { repeat
-    //
-    T MetaDataX
-    , @calculatedFrom(
-//
-/// triple
-""`tick`""  ) @tag( 007 ) leftPad `tab	here` , @tag( 0123456789  )
-char x , @tag(0 ) u64 tag
-    ,
-i8 roots
-    // a // b
-    ,
-    @lengthOf(
-float ) @tag( 10 )
-// c
-// `tick` ""quote"" 'q'
-body { chars
-{repeat int8  body , }  , repeat Header {char[]
-    leftPad	, },	match  Logon as zchar  { 4294967296 :
-    len , ""a\""b"":A //
-00
-: x_y_z,
-} , repeat i16	options1
-, }
-    , @calculatedFrom( """ ++ [128512]%N ++ runes_of_ascii """)@rightPad ( '0'
-) i16 Pad , //
+Eval vm_compute in ("<<<M19>>>" ++ check (runes_of_ascii "packet string_	{ }packet
+    matchKey
+    { }
+")).
+Eval vm_compute in ("<<<M29>>>" ++ check (runes_of_ascii " 	 ")).
+Eval vm_compute in ("<<<M39>>>" ++ check (runes_of_ascii "// `tick` ""quote"" 'q'
+MetaData
+    pack {
+string MetaDataX , //
+zchar[ 65535
+] i8i8, pack rootA	`a\` ,
+    string_ Header `it's` ,
 int64
-    As @lengthOf(
-crc ) , } MetaData x_y_z {u crc
-, } root packet
-Z9_{ @calculatedFrom( ""{,}"" ) tag, @lengthOf( lengthOf ) zchar[  42 ] crc //x
-`" ++ [233]%N ++ runes_of_ascii "`
-// a // b
-// @lengthOf(
-, char[ 007 ] options1 ,
-}packet
-    // `tick` ""quote"" 'q'
-    x {char	trueish
-    ,	char[] packetx @calculatedFrom(""" ++ [28040; 24687]%N ++ runes_of_ascii """)
-    `line1
-line2` ,  zchar[
-1
-    ]
-    Foo // " ++ [128512]%N ++ runes_of_ascii " emoji
-, zchar[ 00 ]
-A , match msg_type as tag { """" : leftPad , [ """ ++ [128512]%N ++ runes_of_ascii """ ,
-    0 ,10
-    ,  3//	t
-] :
-Z9_,  ""it's"":	float , 10 : calculatedFrom ""x y"" // @lengthOf(
-:
-    f32a
-    007	: roots
-    , } // `tick` ""quote"" 'q'
-,} packet
-    u{ // trailing space 
-@calculatedFrom( ""\n"" ) @calculatedFrom( ""a\""b"" )	i64_
-rootA , match // @lengthOf(
-x as Logon {
-    1
-:
-    body,
-""a\\"" /// triple
-: _x ""packet"" : BodyLength,
-},
-    //x
-    @rightPad ( '\x00'//x
-) @calculatedFrom( """ ++ [128512]%N ++ runes_of_ascii """ )	repeat stringy { match
-//x
-// packet A { u8 x, }
-T as float { ""a\\"" : len
-    0:
-BodyLength , [ ""it's""
-, ""{,}"" , 255 // a // b
-, 0123456789, ""a\\"" ] :
-    Logon, 3:rootA
-    // " ++ [27880; 37322]%N ++ runes_of_ascii "
-    ,
-    }
-//
-// packet A { u8 x, }
-,
-} ,//
-u16 uint8x `{ , }`,
-// trailing space 
-//x
-@leftPad
-    // a // b
-    (
-'0' )  string i64_@lengthOf(  stringy  ),
-// `tick` ""quote"" 'q'
-// @lengthOf(
-u64 leftPad@calculatedFrom( // " ++ [27880; 37322]%N ++ runes_of_ascii "
-""a	b"" ) , repeat // @lengthOf(
-Header MetaDataX `a\`
-, @lengthOf(stringy
-    )	Packet
-leftPad , @tag( 00 ) repeat zchar _x `tab	here` , i32	matchKey , }
-")).
-Eval vm_compute in ("<<<M39>>>" ++ check (runes_of_ascii "  packet
-    i64_
-    {
-    Z9_ @lengthOf(
-charz)	`doc`
-    , Pad {  body @lengthOf( string_ ) //
-`say ""hi""`	, uint64 metadata@lengthOf(Logon )`say ""hi""` ,
-    zchar[ 3
-    ] f32a`{ , }` ,repeat uint8	leftPad
+string_ ,
 /// triple
-/// triple
-,  }
-,char[] _x @lengthOf( As)
-    `
-` ,  char[ 65535
-    ]matchKey  `// not a comment`
-,}")).
-Eval vm_compute in ("<<<M49>>>" ++ check (runes_of_ascii "options
-{ options1= uint64 ;	}
-root packet /// triple
-T {MetaDataX//x
-`// not a comment` , } packet crc {}
-")).
-Eval vm_compute in ("<<<M59>>>" ++ check (runes_of_ascii "root
-packet string_{ i32 uint8x @calculatedFrom( ""\" ++ [233]%N ++ runes_of_ascii """ ) , body ,@tag(// a // b
-0  ) Z9_
-    @calculatedFrom(
-""" ++ [28040; 24687]%N ++ runes_of_ascii """),
-@lengthOf( stringy	)  falsey
-    { repeat trueish { u64 i8i8 , }
-,  } ,
-char[] leftPad
-@lengthOf( falsey
-    // c
-    ),	@calculatedFrom(	""a	b""
-    )
-//x
-// " ++ [27880; 37322]%N ++ runes_of_ascii "
-char[]  BodyLength,//x
-match
-falsey as crc{255 :falsey ,[
-//x
-// @lengthOf(
-7,7] // @lengthOf(
-:
-//
-//x
-crc, ""a	b""// `tick` ""quote"" 'q'
-: i8i8,255  : a1
-, } ,Logon@lengthOf( _x // `tick` ""quote"" 'q'
-)
-, match	lengthOf as  o{ ""packet"" :	x_y_z ,} , } options
-{
 //	t
-// `tick` ""quote"" 'q'
-calculatedFrom
-=
-""// no comment""  ;
-    x
-    ='\x00' a1
-= ""abc"" ; x_y_z=
-65535 ; } packet Foo
-{ } packet o { }")).
-Eval vm_compute in ("<<<M69>>>" ++ check (runes_of_ascii "packet lengthOf {// c
-} root packet
-asx { u32 Z9_
-`say ""hi""` ,
-@tag( 007
-    )match
-    u8x as Logon {
-    [ ""abc""	]: tag,0123456789 : tag,  """ ++ [233]%N ++ runes_of_ascii "t" ++ [233]%N ++ runes_of_ascii """ : int
-    ,
-""`tick`"" : options1 , } ,@leftPad
-( )  repeat
-string  tag
-    ,falsey `// not a comment` ,
-}
-")).
-Eval vm_compute in ("<<<T69>>>" ++ terms [mkTok 35 "packet" 1 0 false; mkTok 42 "lengthOf" 1 7 false; mkTok 2 "{" 1 16 false; mkTok 44 "// c" 1 17 true; mkTok 3 "}" 2 0 false; mkTok 34 "root" 2 2 false; mkTok 35 "packet" 2 7 false; mkTok 42 "asx" 3 0 false; mkTok 2 "{" 3 4 false; mkTok 22 "u32" 3 6 false; mkTok 42 "Z9_" 3 10 false; mkTok 43 "`say ""hi""`" 4 0 false; mkTok 40 "," 4 11 false; mkTok 9 "@tag(" 5 0 false; mkTok 30 "007" 5 6 false; mkTok 6 ")" 6 4 false; mkTok 38 "match" 6 5 false; mkTok 42 "u8x" 7 4 false; mkTok 17 "as" 7 8 false; mkTok 42 "Logon" 7 11 false; mkTok 2 "{" 7 17 false; mkTok 18 "[" 8 4 false; mkTok 31 """abc""" 8 6 false; mkTok 13 "]" 8 12 false; mkTok 39 ":" 8 13 false; mkTok 42 "tag" 8 15 false; mkTok 40 "," 8 18 false; mkTok 30 "0123456789" 8 19 false; mkTok 39 ":" 8 30 false; mkTok 42 "tag" 8 32 false; mkTok 40 "," 8 35 false; mkTok 31 (string_of_bytes [34; 195; 169; 116; 195; 169; 34]%N) 8 38 false; mkTok 39 ":" 8 44 false; mkTok 42 "int" 8 46 false; mkTok 40 "," 9 4 false; mkTok 31 """`tick`""" 10 0 false; mkTok 39 ":" 10 9 false; mkTok 42 "options1" 10 11 false; mkTok 40 "," 10 20 false; mkTok 3 "}" 10 22 false; mkTok 40 "," 10 24 false; mkTok 32 "@leftPad" 10 25 false; mkTok 8 "(" 11 0 false; mkTok 6 ")" 11 2 false; mkTok 36 "repeat" 11 5 false; mkTok 15 "string" 12 0 false; mkTok 42 "tag" 12 8 false; mkTok 40 "," 13 4 false; mkTok 42 "falsey" 13 5 false; mkTok 43 "`// not a comment`" 13 12 false; mkTok 40 "," 13 31 false; mkTok 3 "}" 14 0 false; mkTok 0 "<EOF>" 15 0 false] (mkPacket (mkPtok 35 "packet" 1 0 0) (Some (mkPtok 3 "}" 14 0 51)) [(DPacket (mkPacketDef (mkSpan (mkPtok 35 "packet" 1 0 0) (mkPtok 3 "}" 2 0 4)) None (mkPtok 35 "packet" 1 0 0) (mkPtok 42 "lengthOf" 1 7 1) (mkPtok 2 "{" 1 16 2) [] (mkPtok 3 "}" 2 0 4))); (DPacket (mkPacketDef (mkSpan (mkPtok 34 "root" 2 2 5) (mkPtok 3 "}" 14 0 51)) (Some (mkPtok 34 "root" 2 2 5)) (mkPtok 35 "packet" 2 7 6) (mkPtok 42 "asx" 3 0 7) (mkPtok 2 "{" 3 4 8) [(mkFieldWithAttr (mkSpan (mkPtok 22 "u32" 3 6 9) (mkPtok 40 "," 4 11 12)) [] (MetaField (mkSpan (mkPtok 22 "u32" 3 6 9) (mkPtok 40 "," 4 11 12)) None (mkMetaDecl (mkSpan (mkPtok 22 "u32" 3 6 9) (mkPtok 40 "," 4 11 12)) (TyBasic (mkSpan (mkPtok 22 "u32" 3 6 9) (mkPtok 22 "u32" 3 6 9)) (mkBasicType (mkSpan (mkPtok 22 "u32" 3 6 9) (mkPtok 22 "u32" 3 6 9)) (mkPtok 22 "u32" 3 6 9))) (mkPtok 42 "Z9_" 3 10 10) (Some (mkPtok 43 "`say ""hi""`" 4 0 11)) (mkPtok 40 "," 4 11 12)))); (mkFieldWithAttr (mkSpan (mkPtok 9 "@tag(" 5 0 13) (mkPtok 40 "," 10 24 40)) [(FATag (mkSpan (mkPtok 9 "@tag(" 5 0 13) (mkPtok 6 ")" 6 4 15)) (mkTagAttr (mkSpan (mkPtok 9 "@tag(" 5 0 13) (mkPtok 6 ")" 6 4 15)) (mkPtok 9 "@tag(" 5 0 13) (mkPtok 30 "007" 5 6 14) (mkPtok 6 ")" 6 4 15)))] (MatchField (mkSpan (mkPtok 38 "match" 6 5 16) (mkPtok 40 "," 10 24 40)) (mkMatchFieldDecl (mkSpan (mkPtok 38 "match" 6 5 16) (mkPtok 3 "}" 10 22 39)) (mkPtok 38 "match" 6 5 16) (mkPtok 42 "u8x" 7 4 17) (mkPtok 17 "as" 7 8 18) (mkPtok 42 "Logon" 7 11 19) (mkPtok 2 "{" 7 17 20) [(mkMatchPair (mkSpan (mkPtok 18 "[" 8 4 21) (mkPtok 40 "," 8 18 26)) (MKList (mkKeyList (mkSpan (mkPtok 18 "[" 8 4 21) (mkPtok 13 "]" 8 12 23)) (mkPtok 18 "[" 8 4 21) (mkPtok 31 """abc""" 8 6 22) [] (mkPtok 13 "]" 8 12 23))) (mkPtok 39 ":" 8 13 24) (mkPtok 42 "tag" 8 15 25) (Some (mkPtok 40 "," 8 18 26))); (mkMatchPair (mkSpan (mkPtok 30 "0123456789" 8 19 27) (mkPtok 40 "," 8 35 30)) (MKDigits (mkPtok 30 "0123456789" 8 19 27)) (mkPtok 39 ":" 8 30 28) (mkPtok 42 "tag" 8 32 29) (Some (mkPtok 40 "," 8 35 30))); (mkMatchPair (mkSpan (mkPtok 31 (string_of_bytes [34; 195; 169; 116; 195; 169; 34]%N) 8 38 31) (mkPtok 40 "," 9 4 34)) (MKString (mkPtok 31 (string_of_bytes [34; 195; 169; 116; 195; 169; 34]%N) 8 38 31)) (mkPtok 39 ":" 8 44 32) (mkPtok 42 "int" 8 46 33) (Some (mkPtok 40 "," 9 4 34))); (mkMatchPair (mkSpan (mkPtok 31 """`tick`""" 10 0 35) (mkPtok 40 "," 10 20 38)) (MKString (mkPtok 31 """`tick`""" 10 0 35)) (mkPtok 39 ":" 10 9 36) (mkPtok 42 "options1" 10 11 37) (Some (mkPtok 40 "," 10 20 38)))] (mkPtok 3 "}" 10 22 39)) (mkPtok 40 "," 10 24 40))); (mkFieldWithAttr (mkSpan (mkPtok 32 "@leftPad" 10 25 41) (mkPtok 40 "," 13 4 47)) [(FAPadding (mkSpan (mkPtok 32 "@leftPad" 10 25 41) (mkPtok 6 ")" 11 2 43)) (mkPaddingAttr (mkSpan (mkPtok 32 "@leftPad" 10 25 41) (mkPtok 6 ")" 11 2 43)) (mkPtok 32 "@leftPad" 10 25 41) (mkPtok 8 "(" 11 0 42) None (mkPtok 6 ")" 11 2 43)))] (MetaField (mkSpan (mkPtok 36 "repeat" 11 5 44) (mkPtok 40 "," 13 4 47)) (Some (mkPtok 36 "repeat" 11 5 44)) (mkMetaDecl (mkSpan (mkPtok 15 "string" 12 0 45) (mkPtok 40 "," 13 4 47)) (TyDynamic (mkSpan (mkPtok 15 "string" 12 0 45) (mkPtok 15 "string" 12 0 45)) (mkDynamicString (mkSpan (mkPtok 15 "string" 12 0 45) (mkPtok 15 "string" 12 0 45)) (mkPtok 15 "string" 12 0 45))) (mkPtok 42 "tag" 12 8 46) None (mkPtok 40 "," 13 4 47)))); (mkFieldWithAttr (mkSpan (mkPtok 42 "falsey" 13 5 48) (mkPtok 40 "," 13 31 50)) [] (ObjectField (mkSpan (mkPtok 42 "falsey" 13 5 48) (mkPtok 40 "," 13 31 50)) None (mkPtok 42 "falsey" 13 5 48) None (Some (mkPtok 43 "`// not a comment`" 13 12 49)) (mkPtok 40 "," 13 31 50)))] (mkPtok 3 "}" 14 0 51)))])).
-Eval vm_compute in ("<<<M79>>>" ++ check (runes_of_ascii "  options
-{  T
-= ' ' }
-MetaData Pad
-    //x
-    {
-string_ u128  , u64 // @lengthOf(
-uint8x `two words` , int8 repeatCount
-, }
-    packet
-len{
-    Packet
-    `
-`
-,@calculatedFrom( ""a\""b""
-) zchar[
-    42 ]
-rootA ,
-    @calculatedFrom(
-""packet"" )
-@calculatedFrom( ""\n"" ) Packet @calculatedFrom( ""\" ++ [233]%N ++ runes_of_ascii """  )
-    `" ++ [28040; 24687; 31867; 22411]%N ++ runes_of_ascii "`, @leftPad
-    (
-    '\x00' )
-@leftPad (	)
-@rightPad (
-)
-repeat string_
-    {match asx // c
-as rootA {[
-""`tick`"",65535	]:
-falsey ,} , trueish
-, char Z9_`// not a comment` ,
-    Packet Logon `{ , }`, } ,@tag( 1 )
-    match x as pack//	t
-{
-1 :stringy // `tick` ""quote"" 'q'
-, [	42 ]:  x }  ,
-repeat//x
-i8 u8x , @calculatedFrom(""packet"") string_ // c
-@lengthOf( rootA ),	falsey
-@lengthOf( x )
-,} options
-{}
-root packet u { @lengthOf(x_y_z )	u
-    @calculatedFrom( """"
-)
-`two words`, }")).
-Eval vm_compute in ("<<<M89>>>" ++ check (runes_of_ascii "
-MetaData f32a { char[ 42
-    ] zchar
-, //x
-}")).
-Eval vm_compute in ("<<<M99>>>" ++ check (runes_of_ascii "packet len {
-@tag( 255  ) repeat // packet A { u8 x, }
-zchar[ 007] roots
-, leftPad { //	t
-f32 calculatedFrom , f32
-    lengthOf , u32 calculatedFrom , } ,
-x//	t
-x
-    ,} MetaData u128 {
-A i8i8 `two words` ,}
-")).
-Eval vm_compute in ("<<<M109>>>" ++ check (runes_of_ascii "packet
-uint8x {match Pad as// " ++ [128512]%N ++ runes_of_ascii " emoji
-repeatCount{ [0 ] :
-lengthOf ,[""// no comment"" ] :
-metadata ,} , metadata
-// trailing space 
-//
-, zchar[/// triple
-1
-] trueish//	t
-, @calculatedFrom(""a\""b"" ) match//x
-roots as f32a { 4294967296
-: i64_ , ""it's""
-: a1 , [
-    // trailing space 
-    00	,
-    0123456789 ] : As ,
-255 : Packet , ""{,}"" :
-T/// triple
-0
-    :
-falsey } ,
-    body @calculatedFrom( ""\n""
-    // trailing space 
-    ) , @calculatedFrom( """ ++ [128512]%N ++ runes_of_ascii """ )	@tag(
-10 ) char[ 10 ]
-    trueish `doc` ,	@tag( 255 ) repeat
-    Z9_ { asx chars`// not a comment` , } , @lengthOf(Packet ) u16
-    crc , }
-    // `tick` ""quote"" 'q'
-    options
-{ BodyLength =
-    i32 ; x// " ++ [128512]%N ++ runes_of_ascii " emoji
-=
-255
-    ; u= 3 } options
-{ }
-packet
-    calculatedFrom {	}
-    //x
-    root
-packet Header {
-    Pad {
-repeatCount ,  uint16 zchar , match msg_type
-as
-pack
-    /// triple
-    {	""abc"" : repeatCount , ""{,}"" : repeatCount""a	b""	: calculatedFrom},
-repeat string
-Logon `a\` , }
-,@lengthOf( x_y_z
-    ) match
-tag as repeatCount { 007 :  BodyLength , [
-    //	t
-    """ ++ [28040; 24687]%N ++ runes_of_ascii """ ] :
-BodyLength 42: string_ ""// no comment""
-// trailing space 
-/// triple
-: //
-Z9_ , 4294967296:
-    // " ++ [128512]%N ++ runes_of_ascii " emoji
-    _x
-    } , f64 u `it's` , zchar[ 00] f32a `doc` ,match
-    i64_
-    as Logon
-    { 4294967296// a // b
-:
-metadata ,
-}
-, char[1 ]Pad
-, zchar[  0123456789 ] float // @lengthOf(
-`` , }
-
-")).
-Eval vm_compute in ("<<<M119>>>" ++ check (runes_of_ascii "packet BodyLength {  @tag(
-0 )
-    char[
-4294967296 ]
-    options1 , }
-    root packet asx{ repeat string //x
-zchar //	t
-,
-    repeat char string_ `" ++ [28040; 24687; 31867; 22411]%N ++ runes_of_ascii "` ,
-    } options{ rootA = zchar[ 00
-] ;len = ""a\""b"" ; float =7;uint8x= f64 ;// `tick` ""quote"" 'q'
-}root packet
-    stringy{trueish Foo , } packet
-pack{ u64
-// @lengthOf(
-// c
-repeatCount @lengthOf( Header
-    ) ,
-}
-
-")).
-Eval vm_compute in ("<<<M129>>>" ++ check (runes_of_ascii "
-root packet crc{ u16	Z9_ `tab	here`,
-repeat rootA,
-    // trailing space 
-    }
-packet leftPad	{ @rightPad( )
-    @tag(  0 // a // b
-)repeat	i16 As `doc` , } MetaData  body // a // b
-{x f32a,  }
-// c
-")).
-Eval vm_compute in ("<<<M139>>>" ++ check (runes_of_ascii "root packet x_y_z { match Z9_ as  u{ 255:pack , 255 : u128
-, 007 : float ""\n"" :options1 , [	""" ++ [28040; 24687]%N ++ runes_of_ascii """ , 1 ]
-: Z9_""" ++ [28040; 24687]%N ++ runes_of_ascii """:	chars
-, }, u8 _x @calculatedFrom(
-    // a // b
-    """ ++ [28040; 24687]%N ++ runes_of_ascii """ )`say ""hi""` ,@tag( 3 ) match a1 as msg_type { [ ""\n"" // a // b
-, 255//x
-, 0 ] :crc	,} , }
-root packet o
-{  match tag as _x
-    { 007 :
-    x ,	10 :charz,
-""{,}""
-:body	,""" ++ [233]%N ++ runes_of_ascii "t" ++ [233]%N ++ runes_of_ascii """ : len
-""" ++ [128512]%N ++ runes_of_ascii """
-    :
-    u , }
-    ,
-    u64 u @calculatedFrom( ""x y""
-// c
-// " ++ [27880; 37322]%N ++ runes_of_ascii "
-)
-`it's`, @lengthOf( trueish ) repeat // packet A { u8 x, }
-uint8 u8x
-`" ++ [28040; 24687; 31867; 22411]%N ++ runes_of_ascii "` // a // b
-, @calculatedFrom(	""\n"" )
-    @rightPad() @leftPad (
-    '\x00')
-    repeat uint32 float, @lengthOf(	A )
-    @tag(//	t
-0123456789 ) @rightPad ( ' '
-    ) zchar[ 10	]
-    // " ++ [128512]%N ++ runes_of_ascii " emoji
-    o// packet A { u8 x, }
-,
-    uint8x
-    @calculatedFrom( ""a\\"" // " ++ [27880; 37322]%N ++ runes_of_ascii "
-) `
-`
-,body
-, repeat //	t
-char[10 ]
-    string_ `tab	here`
-    , } root packet
-    roots {  } packet u {@calculatedFrom(	""" ++ [128512]%N ++ runes_of_ascii """ )	f64 Logon// `tick` ""quote"" 'q'
-@calculatedFrom( ""1""
-)
-    `a\` ,  int16 trueish `line1
-line2`
-,//
-zchar[  0123456789 ]
-    // a // b
-    BodyLength `two words`, float32 i8i8 @lengthOf( metadata ) `// not a comment`
-, i32 leftPad,	}
-
-")).
-Eval vm_compute in ("<<<T139>>>" ++ terms [mkTok 34 "root" 1 0 false; mkTok 35 "packet" 1 5 false; mkTok 42 "x_y_z" 1 12 false; mkTok 2 "{" 1 18 false; mkTok 38 "match" 1 20 false; mkTok 42 "Z9_" 1 26 false; mkTok 17 "as" 1 30 false; mkTok 42 "u" 1 34 false; mkTok 2 "{" 1 35 false; mkTok 30 "255" 1 37 false; mkTok 39 ":" 1 40 false; mkTok 42 "pack" 1 41 false; mkTok 40 "," 1 46 false; mkTok 30 "255" 1 48 false; mkTok 39 ":" 1 52 false; mkTok 42 "u128" 1 54 false; mkTok 40 "," 2 0 false; mkTok 30 "007" 2 2 false; mkTok 39 ":" 2 6 false; mkTok 42 "float" 2 8 false; mkTok 31 """\n""" 2 14 false; mkTok 39 ":" 2 19 false; mkTok 42 "options1" 2 20 false; mkTok 40 "," 2 29 false; mkTok 18 "[" 2 31 false; mkTok 31 (string_of_bytes [34; 230; 182; 136; 230; 129; 175; 34]%N) 2 33 false; mkTok 40 "," 2 38 false; mkTok 30 "1" 2 40 false; mkTok 13 "]" 2 42 false; mkTok 39 ":" 3 0 false; mkTok 42 "Z9_" 3 2 false; mkTok 31 (string_of_bytes [34; 230; 182; 136; 230; 129; 175; 34]%N) 3 5 false; mkTok 39 ":" 3 9 false; mkTok 42 "chars" 3 11 false; mkTok 40 "," 4 0 false; mkTok 3 "}" 4 2 false; mkTok 40 "," 4 3 false; mkTok 20 "u8" 4 5 false; mkTok 42 "_x" 4 8 false; mkTok 5 "@calculatedFrom(" 4 11 false; mkTok 44 "// a // b" 5 4 true; mkTok 31 (string_of_bytes [34; 230; 182; 136; 230; 129; 175; 34]%N) 6 4 false; mkTok 6 ")" 6 9 false; mkTok 43 "`say ""hi""`" 6 10 false; mkTok 40 "," 6 21 false; mkTok 9 "@tag(" 6 22 false; mkTok 30 "3" 6 28 false; mkTok 6 ")" 6 30 false; mkTok 38 "match" 6 32 false; mkTok 42 "a1" 6 38 false; mkTok 17 "as" 6 41 false; mkTok 42 "msg_type" 6 44 false; mkTok 2 "{" 6 53 false; mkTok 18 "[" 6 55 false; mkTok 31 """\n""" 6 57 false; mkTok 44 "// a // b" 6 62 true; mkTok 40 "," 7 0 false; mkTok 30 "255" 7 2 false; mkTok 44 "//x" 7 5 true; mkTok 40 "," 8 0 false; mkTok 30 "0" 8 2 false; mkTok 13 "]" 8 4 false; mkTok 39 ":" 8 6 false; mkTok 42 "crc" 8 7 false; mkTok 40 "," 8 11 false; mkTok 3 "}" 8 12 false; mkTok 40 "," 8 14 false; mkTok 3 "}" 8 16 false; mkTok 34 "root" 9 0 false; mkTok 35 "packet" 9 5 false; mkTok 42 "o" 9 12 false; mkTok 2 "{" 10 0 false; mkTok 38 "match" 10 3 false; mkTok 42 "tag" 10 9 false; mkTok 17 "as" 10 13 false; mkTok 42 "_x" 10 16 false; mkTok 2 "{" 11 4 false; mkTok 30 "007" 11 6 false; mkTok 39 ":" 11 10 false; mkTok 42 "x" 12 4 false; mkTok 40 "," 12 6 false; mkTok 30 "10" 12 8 false; mkTok 39 ":" 12 11 false; mkTok 42 "charz" 12 12 false; mkTok 40 "," 12 17 false; mkTok 31 """{,}""" 13 0 false; mkTok 39 ":" 14 0 false; mkTok 42 "body" 14 1 false; mkTok 40 "," 14 6 false; mkTok 31 (string_of_bytes [34; 195; 169; 116; 195; 169; 34]%N) 14 7 false; mkTok 39 ":" 14 13 false; mkTok 42 "len" 14 15 false; mkTok 31 (string_of_bytes [34; 240; 159; 152; 128; 34]%N) 15 0 false; mkTok 39 ":" 16 4 false; mkTok 42 "u" 17 4 false; mkTok 40 "," 17 6 false; mkTok 3 "}" 17 8 false; mkTok 40 "," 18 4 false; mkTok 23 "u64" 19 4 false; mkTok 42 "u" 19 8 false; mkTok 5 "@calculatedFrom(" 19 10 false; mkTok 31 """x y""" 19 27 false; mkTok 44 "// c" 20 0 true; mkTok 44 (string_of_bytes [47; 47; 32; 230; 179; 168; 233; 135; 138]%N) 21 0 true; mkTok 6 ")" 22 0 false; mkTok 43 "`it's`" 23 0 false; mkTok 40 "," 23 6 false; mkTok 7 "@lengthOf(" 23 8 false; mkTok 42 "trueish" 23 19 false; mkTok 6 ")" 23 27 false; mkTok 36 "repeat" 23 29 false; mkTok 44 "// packet A { u8 x, }" 23 36 true; mkTok 20 "uint8" 24 0 false; mkTok 42 "u8x" 24 6 false; mkTok 43 (string_of_bytes [96; 230; 182; 136; 230; 129; 175; 231; 177; 187; 229; 158; 139; 96]%N) 25 0 false; mkTok 44 "// a // b" 25 7 true; mkTok 40 "," 26 0 false; mkTok 5 "@calculatedFrom(" 26 2 false; mkTok 31 """\n""" 26 19 false; mkTok 6 ")" 26 24 false; mkTok 32 "@rightPad" 27 4 false; mkTok 8 "(" 27 13 false; mkTok 6 ")" 27 14 false; mkTok 32 "@leftPad" 27 16 false; mkTok 8 "(" 27 25 false; mkTok 33 "'\x00'" 28 4 false; mkTok 6 ")" 28 10 false; mkTok 36 "repeat" 29 4 false; mkTok 22 "uint32" 29 11 false; mkTok 42 "float" 29 18 false; mkTok 40 "," 29 23 false; mkTok 7 "@lengthOf(" 29 25 false; mkTok 42 "A" 29 36 false; mkTok 6 ")" 29 38 false; mkTok 9 "@tag(" 30 4 false; mkTok 44 (string_of_bytes [47; 47; 9; 116]%N) 30 9 true; mkTok 30 "0123456789" 31 0 false; mkTok 6 ")" 31 11 false; mkTok 32 "@rightPad" 31 13 false; mkTok 8 "(" 31 23 false; mkTok 33 "' '" 31 25 false; mkTok 6 ")" 32 4 false; mkTok 14 "zchar[" 32 6 false; mkTok 30 "10" 32 13 false; mkTok 13 "]" 32 16 false; mkTok 44 (string_of_bytes [47; 47; 32; 240; 159; 152; 128; 32; 101; 109; 111; 106; 105]%N) 33 4 true; mkTok 42 "o" 34 4 false; mkTok 44 "// packet A { u8 x, }" 34 5 true; mkTok 40 "," 35 0 false; mkTok 42 "uint8x" 36 4 false; mkTok 5 "@calculatedFrom(" 37 4 false; mkTok 31 """a\\""" 37 21 false; mkTok 44 (string_of_bytes [47; 47; 32; 230; 179; 168; 233; 135; 138]%N) 37 27 true; mkTok 6 ")" 38 0 false; mkTok 43 (string_of_bytes [96; 10; 96]%N) 38 2 false; mkTok 40 "," 40 0 false; mkTok 42 "body" 40 1 false; mkTok 40 "," 41 0 false; mkTok 36 "repeat" 41 2 false; mkTok 44 (string_of_bytes [47; 47; 9; 116]%N) 41 9 true; mkTok 12 "char[" 42 0 false; mkTok 30 "10" 42 5 false; mkTok 13 "]" 42 8 false; mkTok 42 "string_" 43 4 false; mkTok 43 (string_of_bytes [96; 116; 97; 98; 9; 104; 101; 114; 101; 96]%N) 43 12 false; mkTok 40 "," 44 4 false; mkTok 3 "}" 44 6 false; mkTok 34 "root" 44 8 false; mkTok 35 "packet" 44 13 false; mkTok 42 "roots" 45 4 false; mkTok 2 "{" 45 10 false; mkTok 3 "}" 45 13 false; mkTok 35 "packet" 45 15 false; mkTok 42 "u" 45 22 false; mkTok 2 "{" 45 24 false; mkTok 5 "@calculatedFrom(" 45 25 false; mkTok 31 (string_of_bytes [34; 240; 159; 152; 128; 34]%N) 45 42 false; mkTok 6 ")" 45 46 false; mkTok 29 "f64" 45 48 false; mkTok 42 "Logon" 45 52 false; mkTok 44 "// `tick` ""quote"" 'q'" 45 57 true; mkTok 5 "@calculatedFrom(" 46 0 false; mkTok 31 """1""" 46 17 false; mkTok 6 ")" 47 0 false; mkTok 43 "`a\`" 48 4 false; mkTok 40 "," 48 9 false; mkTok 25 "int16" 48 12 false; mkTok 42 "trueish" 48 18 false; mkTok 43 (string_of_bytes [96; 108; 105; 110; 101; 49; 10; 108; 105; 110; 101; 50; 96]%N) 48 26 false; mkTok 40 "," 50 0 false; mkTok 44 "//" 50 1 true; mkTok 14 "zchar[" 51 0 false; mkTok 30 "0123456789" 51 8 false; mkTok 13 "]" 51 19 false; mkTok 44 "// a // b" 52 4 true; mkTok 42 "BodyLength" 53 4 false; mkTok 43 "`two words`" 53 15 false; mkTok 40 "," 53 26 false; mkTok 28 "float32" 53 28 false; mkTok 42 "i8i8" 53 36 false; mkTok 7 "@lengthOf(" 53 41 false; mkTok 42 "metadata" 53 52 false; mkTok 6 ")" 53 61 false; mkTok 43 "`// not a comment`" 53 63 false; mkTok 40 "," 54 0 false; mkTok 26 "i32" 54 2 false; mkTok 42 "leftPad" 54 6 false; mkTok 40 "," 54 13 false; mkTok 3 "}" 54 15 false; mkTok 0 "<EOF>" 56 0 false] (mkPacket (mkPtok 34 "root" 1 0 0) (Some (mkPtok 3 "}" 54 15 208)) [(DPacket (mkPacketDef (mkSpan (mkPtok 34 "root" 1 0 0) (mkPtok 3 "}" 8 16 67)) (Some (mkPtok 34 "root" 1 0 0)) (mkPtok 35 "packet" 1 5 1) (mkPtok 42 "x_y_z" 1 12 2) (mkPtok 2 "{" 1 18 3) [(mkFieldWithAttr (mkSpan (mkPtok 38 "match" 1 20 4) (mkPtok 40 "," 4 3 36)) [] (MatchField (mkSpan (mkPtok 38 "match" 1 20 4) (mkPtok 40 "," 4 3 36)) (mkMatchFieldDecl (mkSpan (mkPtok 38 "match" 1 20 4) (mkPtok 3 "}" 4 2 35)) (mkPtok 38 "match" 1 20 4) (mkPtok 42 "Z9_" 1 26 5) (mkPtok 17 "as" 1 30 6) (mkPtok 42 "u" 1 34 7) (mkPtok 2 "{" 1 35 8) [(mkMatchPair (mkSpan (mkPtok 30 "255" 1 37 9) (mkPtok 40 "," 1 46 12)) (MKDigits (mkPtok 30 "255" 1 37 9)) (mkPtok 39 ":" 1 40 10) (mkPtok 42 "pack" 1 41 11) (Some (mkPtok 40 "," 1 46 12))); (mkMatchPair (mkSpan (mkPtok 30 "255" 1 48 13) (mkPtok 40 "," 2 0 16)) (MKDigits (mkPtok 30 "255" 1 48 13)) (mkPtok 39 ":" 1 52 14) (mkPtok 42 "u128" 1 54 15) (Some (mkPtok 40 "," 2 0 16))); (mkMatchPair (mkSpan (mkPtok 30 "007" 2 2 17) (mkPtok 42 "float" 2 8 19)) (MKDigits (mkPtok 30 "007" 2 2 17)) (mkPtok 39 ":" 2 6 18) (mkPtok 42 "float" 2 8 19) None); (mkMatchPair (mkSpan (mkPtok 31 """\n""" 2 14 20) (mkPtok 40 "," 2 29 23)) (MKString (mkPtok 31 """\n""" 2 14 20)) (mkPtok 39 ":" 2 19 21) (mkPtok 42 "options1" 2 20 22) (Some (mkPtok 40 "," 2 29 23))); (mkMatchPair (mkSpan (mkPtok 18 "[" 2 31 24) (mkPtok 42 "Z9_" 3 2 30)) (MKList (mkKeyList (mkSpan (mkPtok 18 "[" 2 31 24) (mkPtok 13 "]" 2 42 28)) (mkPtok 18 "[" 2 31 24) (mkPtok 31 (string_of_bytes [34; 230; 182; 136; 230; 129; 175; 34]%N) 2 33 25) [((mkPtok 40 "," 2 38 26), (mkPtok 30 "1" 2 40 27))] (mkPtok 13 "]" 2 42 28))) (mkPtok 39 ":" 3 0 29) (mkPtok 42 "Z9_" 3 2 30) None); (mkMatchPair (mkSpan (mkPtok 31 (string_of_bytes [34; 230; 182; 136; 230; 129; 175; 34]%N) 3 5 31) (mkPtok 40 "," 4 0 34)) (MKString (mkPtok 31 (string_of_bytes [34; 230; 182; 136; 230; 129; 175; 34]%N) 3 5 31)) (mkPtok 39 ":" 3 9 32) (mkPtok 42 "chars" 3 11 33) (Some (mkPtok 40 "," 4 0 34)))] (mkPtok 3 "}" 4 2 35)) (mkPtok 40 "," 4 3 36))); (mkFieldWithAttr (mkSpan (mkPtok 20 "u8" 4 5 37) (mkPtok 40 "," 6 21 44)) [] (CheckSumField (mkSpan (mkPtok 20 "u8" 4 5 37) (mkPtok 40 "," 6 21 44)) (mkChecksumFieldDecl (mkSpan (mkPtok 20 "u8" 4 5 37) (mkPtok 40 "," 6 21 44)) (Some (TyBasic (mkSpan (mkPtok 20 "u8" 4 5 37) (mkPtok 20 "u8" 4 5 37)) (mkBasicType (mkSpan (mkPtok 20 "u8" 4 5 37) (mkPtok 20 "u8" 4 5 37)) (mkPtok 20 "u8" 4 5 37)))) (mkPtok 42 "_x" 4 8 38) (mkCalculatedFrom (mkSpan (mkPtok 5 "@calculatedFrom(" 4 11 39) (mkPtok 6 ")" 6 9 42)) (mkPtok 5 "@calculatedFrom(" 4 11 39) (mkPtok 31 (string_of_bytes [34; 230; 182; 136; 230; 129; 175; 34]%N) 6 4 41) (mkPtok 6 ")" 6 9 42)) (Some (mkPtok 43 "`say ""hi""`" 6 10 43)) (mkPtok 40 "," 6 21 44)))); (mkFieldWithAttr (mkSpan (mkPtok 9 "@tag(" 6 22 45) (mkPtok 40 "," 8 14 66)) [(FATag (mkSpan (mkPtok 9 "@tag(" 6 22 45) (mkPtok 6 ")" 6 30 47)) (mkTagAttr (mkSpan (mkPtok 9 "@tag(" 6 22 45) (mkPtok 6 ")" 6 30 47)) (mkPtok 9 "@tag(" 6 22 45) (mkPtok 30 "3" 6 28 46) (mkPtok 6 ")" 6 30 47)))] (MatchField (mkSpan (mkPtok 38 "match" 6 32 48) (mkPtok 40 "," 8 14 66)) (mkMatchFieldDecl (mkSpan (mkPtok 38 "match" 6 32 48) (mkPtok 3 "}" 8 12 65)) (mkPtok 38 "match" 6 32 48) (mkPtok 42 "a1" 6 38 49) (mkPtok 17 "as" 6 41 50) (mkPtok 42 "msg_type" 6 44 51) (mkPtok 2 "{" 6 53 52) [(mkMatchPair (mkSpan (mkPtok 18 "[" 6 55 53) (mkPtok 40 "," 8 11 64)) (MKList (mkKeyList (mkSpan (mkPtok 18 "[" 6 55 53) (mkPtok 13 "]" 8 4 61)) (mkPtok 18 "[" 6 55 53) (mkPtok 31 """\n""" 6 57 54) [((mkPtok 40 "," 7 0 56), (mkPtok 30 "255" 7 2 57)); ((mkPtok 40 "," 8 0 59), (mkPtok 30 "0" 8 2 60))] (mkPtok 13 "]" 8 4 61))) (mkPtok 39 ":" 8 6 62) (mkPtok 42 "crc" 8 7 63) (Some (mkPtok 40 "," 8 11 64)))] (mkPtok 3 "}" 8 12 65)) (mkPtok 40 "," 8 14 66)))] (mkPtok 3 "}" 8 16 67))); (DPacket (mkPacketDef (mkSpan (mkPtok 34 "root" 9 0 68) (mkPtok 3 "}" 44 6 166)) (Some (mkPtok 34 "root" 9 0 68)) (mkPtok 35 "packet" 9 5 69) (mkPtok 42 "o" 9 12 70) (mkPtok 2 "{" 10 0 71) [(mkFieldWithAttr (mkSpan (mkPtok 38 "match" 10 3 72) (mkPtok 40 "," 18 4 97)) [] (MatchField (mkSpan (mkPtok 38 "match" 10 3 72) (mkPtok 40 "," 18 4 97)) (mkMatchFieldDecl (mkSpan (mkPtok 38 "match" 10 3 72) (mkPtok 3 "}" 17 8 96)) (mkPtok 38 "match" 10 3 72) (mkPtok 42 "tag" 10 9 73) (mkPtok 17 "as" 10 13 74) (mkPtok 42 "_x" 10 16 75) (mkPtok 2 "{" 11 4 76) [(mkMatchPair (mkSpan (mkPtok 30 "007" 11 6 77) (mkPtok 40 "," 12 6 80)) (MKDigits (mkPtok 30 "007" 11 6 77)) (mkPtok 39 ":" 11 10 78) (mkPtok 42 "x" 12 4 79) (Some (mkPtok 40 "," 12 6 80))); (mkMatchPair (mkSpan (mkPtok 30 "10" 12 8 81) (mkPtok 40 "," 12 17 84)) (MKDigits (mkPtok 30 "10" 12 8 81)) (mkPtok 39 ":" 12 11 82) (mkPtok 42 "charz" 12 12 83) (Some (mkPtok 40 "," 12 17 84))); (mkMatchPair (mkSpan (mkPtok 31 """{,}""" 13 0 85) (mkPtok 40 "," 14 6 88)) (MKString (mkPtok 31 """{,}""" 13 0 85)) (mkPtok 39 ":" 14 0 86) (mkPtok 42 "body" 14 1 87) (Some (mkPtok 40 "," 14 6 88))); (mkMatchPair (mkSpan (mkPtok 31 (string_of_bytes [34; 195; 169; 116; 195; 169; 34]%N) 14 7 89) (mkPtok 42 "len" 14 15 91)) (MKString (mkPtok 31 (string_of_bytes [34; 195; 169; 116; 195; 169; 34]%N) 14 7 89)) (mkPtok 39 ":" 14 13 90) (mkPtok 42 "len" 14 15 91) None); (mkMatchPair (mkSpan (mkPtok 31 (string_of_bytes [34; 240; 159; 152; 128; 34]%N) 15 0 92) (mkPtok 40 "," 17 6 95)) (MKString (mkPtok 31 (string_of_bytes [34; 240; 159; 152; 128; 34]%N) 15 0 92)) (mkPtok 39 ":" 16 4 93) (mkPtok 42 "u" 17 4 94) (Some (mkPtok 40 "," 17 6 95)))] (mkPtok 3 "}" 17 8 96)) (mkPtok 40 "," 18 4 97))); (mkFieldWithAttr (mkSpan (mkPtok 23 "u64" 19 4 98) (mkPtok 40 "," 23 6 106)) [] (CheckSumField (mkSpan (mkPtok 23 "u64" 19 4 98) (mkPtok 40 "," 23 6 106)) (mkChecksumFieldDecl (mkSpan (mkPtok 23 "u64" 19 4 98) (mkPtok 40 "," 23 6 106)) (Some (TyBasic (mkSpan (mkPtok 23 "u64" 19 4 98) (mkPtok 23 "u64" 19 4 98)) (mkBasicType (mkSpan (mkPtok 23 "u64" 19 4 98) (mkPtok 23 "u64" 19 4 98)) (mkPtok 23 "u64" 19 4 98)))) (mkPtok 42 "u" 19 8 99) (mkCalculatedFrom (mkSpan (mkPtok 5 "@calculatedFrom(" 19 10 100) (mkPtok 6 ")" 22 0 104)) (mkPtok 5 "@calculatedFrom(" 19 10 100) (mkPtok 31 """x y""" 19 27 101) (mkPtok 6 ")" 22 0 104)) (Some (mkPtok 43 "`it's`" 23 0 105)) (mkPtok 40 "," 23 6 106)))); (mkFieldWithAttr (mkSpan (mkPtok 7 "@lengthOf(" 23 8 107) (mkPtok 40 "," 26 0 116)) [(FALengthOf (mkSpan (mkPtok 7 "@lengthOf(" 23 8 107) (mkPtok 6 ")" 23 27 109)) (mkLengthOf (mkSpan (mkPtok 7 "@lengthOf(" 23 8 107) (mkPtok 6 ")" 23 27 109)) (mkPtok 7 "@lengthOf(" 23 8 107) (mkPtok 42 "trueish" 23 19 108) (mkPtok 6 ")" 23 27 109)))] (MetaField (mkSpan (mkPtok 36 "repeat" 23 29 110) (mkPtok 40 "," 26 0 116)) (Some (mkPtok 36 "repeat" 23 29 110)) (mkMetaDecl (mkSpan (mkPtok 20 "uint8" 24 0 112) (mkPtok 40 "," 26 0 116)) (TyBasic (mkSpan (mkPtok 20 "uint8" 24 0 112) (mkPtok 20 "uint8" 24 0 112)) (mkBasicType (mkSpan (mkPtok 20 "uint8" 24 0 112) (mkPtok 20 "uint8" 24 0 112)) (mkPtok 20 "uint8" 24 0 112))) (mkPtok 42 "u8x" 24 6 113) (Some (mkPtok 43 (string_of_bytes [96; 230; 182; 136; 230; 129; 175; 231; 177; 187; 229; 158; 139; 96]%N) 25 0 114)) (mkPtok 40 "," 26 0 116)))); (mkFieldWithAttr (mkSpan (mkPtok 5 "@calculatedFrom(" 26 2 117) (mkPtok 40 "," 29 23 130)) [(FACalculatedFrom (mkSpan (mkPtok 5 "@calculatedFrom(" 26 2 117) (mkPtok 6 ")" 26 24 119)) (mkCalculatedFrom (mkSpan (mkPtok 5 "@calculatedFrom(" 26 2 117) (mkPtok 6 ")" 26 24 119)) (mkPtok 5 "@calculatedFrom(" 26 2 117) (mkPtok 31 """\n""" 26 19 118) (mkPtok 6 ")" 26 24 119))); (FAPadding (mkSpan (mkPtok 32 "@rightPad" 27 4 120) (mkPtok 6 ")" 27 14 122)) (mkPaddingAttr (mkSpan (mkPtok 32 "@rightPad" 27 4 120) (mkPtok 6 ")" 27 14 122)) (mkPtok 32 "@rightPad" 27 4 120) (mkPtok 8 "(" 27 13 121) None (mkPtok 6 ")" 27 14 122))); (FAPadding (mkSpan (mkPtok 32 "@leftPad" 27 16 123) (mkPtok 6 ")" 28 10 126)) (mkPaddingAttr (mkSpan (mkPtok 32 "@leftPad" 27 16 123) (mkPtok 6 ")" 28 10 126)) (mkPtok 32 "@leftPad" 27 16 123) (mkPtok 8 "(" 27 25 124) (Some (mkPtok 33 "'\x00'" 28 4 125)) (mkPtok 6 ")" 28 10 126)))] (MetaField (mkSpan (mkPtok 36 "repeat" 29 4 127) (mkPtok 40 "," 29 23 130)) (Some (mkPtok 36 "repeat" 29 4 127)) (mkMetaDecl (mkSpan (mkPtok 22 "uint32" 29 11 128) (mkPtok 40 "," 29 23 130)) (TyBasic (mkSpan (mkPtok 22 "uint32" 29 11 128) (mkPtok 22 "uint32" 29 11 128)) (mkBasicType (mkSpan (mkPtok 22 "uint32" 29 11 128) (mkPtok 22 "uint32" 29 11 128)) (mkPtok 22 "uint32" 29 11 128))) (mkPtok 42 "float" 29 18 129) None (mkPtok 40 "," 29 23 130)))); (mkFieldWithAttr (mkSpan (mkPtok 7 "@lengthOf(" 29 25 131) (mkPtok 40 "," 35 0 148)) [(FALengthOf (mkSpan (mkPtok 7 "@lengthOf(" 29 25 131) (mkPtok 6 ")" 29 38 133)) (mkLengthOf (mkSpan (mkPtok 7 "@lengthOf(" 29 25 131) (mkPtok 6 ")" 29 38 133)) (mkPtok 7 "@lengthOf(" 29 25 131) (mkPtok 42 "A" 29 36 132) (mkPtok 6 ")" 29 38 133))); (FATag (mkSpan (mkPtok 9 "@tag(" 30 4 134) (mkPtok 6 ")" 31 11 137)) (mkTagAttr (mkSpan (mkPtok 9 "@tag(" 30 4 134) (mkPtok 6 ")" 31 11 137)) (mkPtok 9 "@tag(" 30 4 134) (mkPtok 30 "0123456789" 31 0 136) (mkPtok 6 ")" 31 11 137))); (FAPadding (mkSpan (mkPtok 32 "@rightPad" 31 13 138) (mkPtok 6 ")" 32 4 141)) (mkPaddingAttr (mkSpan (mkPtok 32 "@rightPad" 31 13 138) (mkPtok 6 ")" 32 4 141)) (mkPtok 32 "@rightPad" 31 13 138) (mkPtok 8 "(" 31 23 139) (Some (mkPtok 33 "' '" 31 25 140)) (mkPtok 6 ")" 32 4 141)))] (MetaField (mkSpan (mkPtok 14 "zchar[" 32 6 142) (mkPtok 40 "," 35 0 148)) None (mkMetaDecl (mkSpan (mkPtok 14 "zchar[" 32 6 142) (mkPtok 40 "," 35 0 148)) (TyFixed (mkSpan (mkPtok 14 "zchar[" 32 6 142) (mkPtok 13 "]" 32 16 144)) (mkFixedString (mkSpan (mkPtok 14 "zchar[" 32 6 142) (mkPtok 13 "]" 32 16 144)) (mkPtok 14 "zchar[" 32 6 142) (mkPtok 30 "10" 32 13 143) (mkPtok 13 "]" 32 16 144))) (mkPtok 42 "o" 34 4 146) None (mkPtok 40 "," 35 0 148)))); (mkFieldWithAttr (mkSpan (mkPtok 42 "uint8x" 36 4 149) (mkPtok 40 "," 40 0 155)) [] (CheckSumField (mkSpan (mkPtok 42 "uint8x" 36 4 149) (mkPtok 40 "," 40 0 155)) (mkChecksumFieldDecl (mkSpan (mkPtok 42 "uint8x" 36 4 149) (mkPtok 40 "," 40 0 155)) None (mkPtok 42 "uint8x" 36 4 149) (mkCalculatedFrom (mkSpan (mkPtok 5 "@calculatedFrom(" 37 4 150) (mkPtok 6 ")" 38 0 153)) (mkPtok 5 "@calculatedFrom(" 37 4 150) (mkPtok 31 """a\\""" 37 21 151) (mkPtok 6 ")" 38 0 153)) (Some (mkPtok 43 (string_of_bytes [96; 10; 96]%N) 38 2 154)) (mkPtok 40 "," 40 0 155)))); (mkFieldWithAttr (mkSpan (mkPtok 42 "body" 40 1 156) (mkPtok 40 "," 41 0 157)) [] (ObjectField (mkSpan (mkPtok 42 "body" 40 1 156) (mkPtok 40 "," 41 0 157)) None (mkPtok 42 "body" 40 1 156) None None (mkPtok 40 "," 41 0 157))); (mkFieldWithAttr (mkSpan (mkPtok 36 "repeat" 41 2 158) (mkPtok 40 "," 44 4 165)) [] (MetaField (mkSpan (mkPtok 36 "repeat" 41 2 158) (mkPtok 40 "," 44 4 165)) (Some (mkPtok 36 "repeat" 41 2 158)) (mkMetaDecl (mkSpan (mkPtok 12 "char[" 42 0 160) (mkPtok 40 "," 44 4 165)) (TyFixed (mkSpan (mkPtok 12 "char[" 42 0 160) (mkPtok 13 "]" 42 8 162)) (mkFixedString (mkSpan (mkPtok 12 "char[" 42 0 160) (mkPtok 13 "]" 42 8 162)) (mkPtok 12 "char[" 42 0 160) (mkPtok 30 "10" 42 5 161) (mkPtok 13 "]" 42 8 162))) (mkPtok 42 "string_" 43 4 163) (Some (mkPtok 43 (string_of_bytes [96; 116; 97; 98; 9; 104; 101; 114; 101; 96]%N) 43 12 164)) (mkPtok 40 "," 44 4 165))))] (mkPtok 3 "}" 44 6 166))); (DPacket (mkPacketDef (mkSpan (mkPtok 34 "root" 44 8 167) (mkPtok 3 "}" 45 13 171)) (Some (mkPtok 34 "root" 44 8 167)) (mkPtok 35 "packet" 44 13 168) (mkPtok 42 "roots" 45 4 169) (mkPtok 2 "{" 45 10 170) [] (mkPtok 3 "}" 45 13 171))); (DPacket (mkPacketDef (mkSpan (mkPtok 35 "packet" 45 15 172) (mkPtok 3 "}" 54 15 208)) None (mkPtok 35 "packet" 45 15 172) (mkPtok 42 "u" 45 22 173) (mkPtok 2 "{" 45 24 174) [(mkFieldWithAttr (mkSpan (mkPtok 5 "@calculatedFrom(" 45 25 175) (mkPtok 40 "," 48 9 185)) [(FACalculatedFrom (mkSpan (mkPtok 5 "@calculatedFrom(" 45 25 175) (mkPtok 6 ")" 45 46 177)) (mkCalculatedFrom (mkSpan (mkPtok 5 "@calculatedFrom(" 45 25 175) (mkPtok 6 ")" 45 46 177)) (mkPtok 5 "@calculatedFrom(" 45 25 175) (mkPtok 31 (string_of_bytes [34; 240; 159; 152; 128; 34]%N) 45 42 176) (mkPtok 6 ")" 45 46 177)))] (CheckSumField (mkSpan (mkPtok 29 "f64" 45 48 178) (mkPtok 40 "," 48 9 185)) (mkChecksumFieldDecl (mkSpan (mkPtok 29 "f64" 45 48 178) (mkPtok 40 "," 48 9 185)) (Some (TyBasic (mkSpan (mkPtok 29 "f64" 45 48 178) (mkPtok 29 "f64" 45 48 178)) (mkBasicType (mkSpan (mkPtok 29 "f64" 45 48 178) (mkPtok 29 "f64" 45 48 178)) (mkPtok 29 "f64" 45 48 178)))) (mkPtok 42 "Logon" 45 52 179) (mkCalculatedFrom (mkSpan (mkPtok 5 "@calculatedFrom(" 46 0 181) (mkPtok 6 ")" 47 0 183)) (mkPtok 5 "@calculatedFrom(" 46 0 181) (mkPtok 31 """1""" 46 17 182) (mkPtok 6 ")" 47 0 183)) (Some (mkPtok 43 "`a\`" 48 4 184)) (mkPtok 40 "," 48 9 185)))); (mkFieldWithAttr (mkSpan (mkPtok 25 "int16" 48 12 186) (mkPtok 40 "," 50 0 189)) [] (MetaField (mkSpan (mkPtok 25 "int16" 48 12 186) (mkPtok 40 "," 50 0 189)) None (mkMetaDecl (mkSpan (mkPtok 25 "int16" 48 12 186) (mkPtok 40 "," 50 0 189)) (TyBasic (mkSpan (mkPtok 25 "int16" 48 12 186) (mkPtok 25 "int16" 48 12 186)) (mkBasicType (mkSpan (mkPtok 25 "int16" 48 12 186) (mkPtok 25 "int16" 48 12 186)) (mkPtok 25 "int16" 48 12 186))) (mkPtok 42 "trueish" 48 18 187) (Some (mkPtok 43 (string_of_bytes [96; 108; 105; 110; 101; 49; 10; 108; 105; 110; 101; 50; 96]%N) 48 26 188)) (mkPtok 40 "," 50 0 189)))); (mkFieldWithAttr (mkSpan (mkPtok 14 "zchar[" 51 0 191) (mkPtok 40 "," 53 26 197)) [] (MetaField (mkSpan (mkPtok 14 "zchar[" 51 0 191) (mkPtok 40 "," 53 26 197)) None (mkMetaDecl (mkSpan (mkPtok 14 "zchar[" 51 0 191) (mkPtok 40 "," 53 26 197)) (TyFixed (mkSpan (mkPtok 14 "zchar[" 51 0 191) (mkPtok 13 "]" 51 19 193)) (mkFixedString (mkSpan (mkPtok 14 "zchar[" 51 0 191) (mkPtok 13 "]" 51 19 193)) (mkPtok 14 "zchar[" 51 0 191) (mkPtok 30 "0123456789" 51 8 192) (mkPtok 13 "]" 51 19 193))) (mkPtok 42 "BodyLength" 53 4 195) (Some (mkPtok 43 "`two words`" 53 15 196)) (mkPtok 40 "," 53 26 197)))); (mkFieldWithAttr (mkSpan (mkPtok 28 "float32" 53 28 198) (mkPtok 40 "," 54 0 204)) [] (LengthField (mkSpan (mkPtok 28 "float32" 53 28 198) (mkPtok 40 "," 54 0 204)) (mkLengthFieldDecl (mkSpan (mkPtok 28 "float32" 53 28 198) (mkPtok 40 "," 54 0 204)) (Some (TyBasic (mkSpan (mkPtok 28 "float32" 53 28 198) (mkPtok 28 "float32" 53 28 198)) (mkBasicType (mkSpan (mkPtok 28 "float32" 53 28 198) (mkPtok 28 "float32" 53 28 198)) (mkPtok 28 "float32" 53 28 198)))) (mkPtok 42 "i8i8" 53 36 199) (mkLengthOf (mkSpan (mkPtok 7 "@lengthOf(" 53 41 200) (mkPtok 6 ")" 53 61 202)) (mkPtok 7 "@lengthOf(" 53 41 200) (mkPtok 42 "metadata" 53 52 201) (mkPtok 6 ")" 53 61 202)) (Some (mkPtok 43 "`// not a comment`" 53 63 203)) (mkPtok 40 "," 54 0 204)))); (mkFieldWithAttr (mkSpan (mkPtok 26 "i32" 54 2 205) (mkPtok 40 "," 54 13 207)) [] (MetaField (mkSpan (mkPtok 26 "i32" 54 2 205) (mkPtok 40 "," 54 13 207)) None (mkMetaDecl (mkSpan (mkPtok 26 "i32" 54 2 205) (mkPtok 40 "," 54 13 207)) (TyBasic (mkSpan (mkPtok 26 "i32" 54 2 205) (mkPtok 26 "i32" 54 2 205)) (mkBasicType (mkSpan (mkPtok 26 "i32" 54 2 205) (mkPtok 26 "i32" 54 2 205)) (mkPtok 26 "i32" 54 2 205))) (mkPtok 42 "leftPad" 54 6 206) None (mkPtok 40 "," 54 13 207))))] (mkPtok 3 "}" 54 15 208)))])).
-Eval vm_compute in ("<<<M149>>>" ++ check (runes_of_ascii "root packet crc {@calculatedFrom(
-""" ++ [128512]%N ++ runes_of_ascii """)
-BodyLength{x_y_z i8i8
-//
-//
-, int32 uint8x
-`two words` ,	rootA tag , zchar[
-7] matchKey
-    `" ++ [233]%N ++ runes_of_ascii "` ,} , T { x@calculatedFrom( ""a	b"" )
-`// not a comment` ,zchar[ // " ++ [128512]%N ++ runes_of_ascii " emoji
-42 ] /// triple
-A
-, match chars
-as
-    //x
-    len {""packet"" :crc 3//x
-:
-chars [
-0123456789 , ""packet"" ]
-    : pack	[""packet""
-,
-00// " ++ [27880; 37322]%N ++ runes_of_ascii "
-,
-    7 ,""" ++ [28040; 24687]%N ++ runes_of_ascii """, 3
-,  ""packet"",
-    42, 0123456789
-    ] :
-repeatCount	""{,}"" :
-chars
-    ,/// triple
-} ,
-} ,
-}")).
-Eval vm_compute in ("<<<M159>>>" ++ check (runes_of_ascii "
-options{	roots ='\x00' lengthOf
-=
-    true
-; Packet = // `tick` ""quote"" 'q'
-""packet"" ; o = // packet A { u8 x, }
-""packet"" ; A// " ++ [27880; 37322]%N ++ runes_of_ascii "
-=
-    //
-    true ; // trailing space 
-} packet body
-{ _x ,	zchar[
-65535
-]
-Header @calculatedFrom( // trailing space 
-""""  ) `u8 x,` , }
-root packet
-    //	t
-    T // trailing space 
-{ @tag(// trailing space 
-7) @tag( 0
-    )
-@leftPad( '0' )// a // b
-int64
-x @lengthOf( Packet )
-    , msg_type stringy
-`" ++ [28040; 24687; 31867; 22411]%N ++ runes_of_ascii "`/// triple
-, } /// triple")).
-Eval vm_compute in ("<<<M169>>>" ++ check (runes_of_ascii "MetaData
-    lengthOf
-{
-char[0123456789] calculatedFrom ,
-char[ 0
-]
-options1
-    ,
-    } MetaData  repeatCount
-{ // packet A { u8 x, }
-u64 len ,
-    stringy x_y_z `it's` // a // b
-, f32 As ,	}
-")).
-Eval vm_compute in ("<<<M179>>>" ++ check (runes_of_ascii "
-options
-    // " ++ [128512]%N ++ runes_of_ascii " emoji
-    {  roots= false ; f32a = ""// no comment""
-// " ++ [128512]%N ++ runes_of_ascii " emoji
-// a // b
-;
-}
-")).
-Eval vm_compute in ("<<<M189>>>" ++ check (runes_of_ascii "packet
-// @lengthOf(
-// " ++ [128512]%N ++ runes_of_ascii " emoji
-Foo { @calculatedFrom( """" )
-@calculatedFrom(""1""
-) @rightPad () int32 As
-@calculatedFrom( """"// a // b
-)
-    `say ""hi""` // c
-, @calculatedFrom( ""\n""
-)
-// trailing space 
-/// triple
-char[// trailing space 
-65535 ] asx ,
-    repeat	int8 trueish `{ , }` ,
-} root packet lengthOf{  }")).
-Eval vm_compute in ("<<<M199>>>" ++ check (runes_of_ascii "//x
-packet	u8x { @lengthOf(  As
-    )
-repeat char[ // c
-4294967296
-]
-    int `{ , }` ,repeat
-    // " ++ [128512]%N ++ runes_of_ascii " emoji
-    int8 len
-`two words` , }root packet tag// a // b
-{} root packet rootA { o@calculatedFrom(""""
-    ) ,leftPad i64_ `it's`
-// a // b
-// packet A { u8 x, }
-, // " ++ [27880; 37322]%N ++ runes_of_ascii "
-@tag( 7 )
-    float ,	int32 x_y_z, repeat roots { zchar[ 10 ]
-    a1 ,
-    f32a
-    options1
-    `crlf
-line` , match _x
-    // @lengthOf(
-    as
-zchar {	1 : u8x ,""// no comment"" : float,	[4294967296, 10 ,""" ++ [233]%N ++ runes_of_ascii "t" ++ [233]%N ++ runes_of_ascii """ , """ ++ [28040; 24687]%N ++ runes_of_ascii """
-, 1 ] :u128 // trailing space 
-,
-    [ ""\" ++ [233]%N ++ runes_of_ascii """ ,//x
-42 // " ++ [128512]%N ++ runes_of_ascii " emoji
-] :	stringy
-    ,
-[ 1 // " ++ [27880; 37322]%N ++ runes_of_ascii "
-,""\n""
-]:falsey
-    // a // b
-    , } ,  string  charz  @calculatedFrom( """" ) ,
-    }
-,	char[]	options1
-    `
-`
-,
-//	t
-/// triple
-u8x{ repeat msg_type	matchKey `u8 x,` , } , A
-@lengthOf( //x
-pack
-    ) //	t
-, i64
-stringy ,
-}
-packet i8i8{ i64_
-u128
-,@lengthOf( u8x//
-) repeat
-float64 f32a ,@calculatedFrom(
-    ""`tick`"" ) pack
-`" ++ [233]%N ++ runes_of_ascii "` ,
-uint64 Z9_ @calculatedFrom("""" ) `tab	here` , }
-")).
-Eval vm_compute in ("<<<M209>>>" ++ check (runes_of_ascii "root packet body{
-@tag(
-4294967296
-    )
-As @calculatedFrom(""" ++ [128512]%N ++ runes_of_ascii """ )
-    `a\` , /// triple
-} root packet
-    uint8x
-{ MetaDataX{ repeat
-matchKey lengthOf , repeat u32 uint8x
-// packet A { u8 x, }
-// a // b
-`doc`
-    /// triple
-    ,
-} ,  } options { int // a // b
-=
-    ""abc"" } packet
-    // trailing space 
-    u8x {
-} root
-packet // " ++ [128512]%N ++ runes_of_ascii " emoji
-falsey {repeat float32	u , repeat	char[]
-// " ++ [128512]%N ++ runes_of_ascii " emoji
-// packet A { u8 x, }
-msg_type
-    `
-` , @leftPad ( ' ')
-    @tag(255
-)match Header as msg_type
-    { 3 :uint8x
-    ,
-    255 :
-x , // trailing space 
-7 // " ++ [27880; 37322]%N ++ runes_of_ascii "
-: leftPad
-// c
-// `tick` ""quote"" 'q'
-""" ++ [28040; 24687]%N ++ runes_of_ascii """
-// packet A { u8 x, }
-// c
-: Packet ,[ 4294967296
-    ,""1"" ] :
-    T , } ,
-    //	t
-    Logon @calculatedFrom( ""x y"")  `it's`
-, string charz @calculatedFrom(
-// " ++ [128512]%N ++ runes_of_ascii " emoji
-//	t
-""abc""
-) ,
-string options1	,
-/// triple
-/// triple
-@lengthOf(
-//
-//x
-As
-    ) repeat zchar[ // `tick` ""quote"" 'q'
-7 ]zchar , @lengthOf(
-    crc)x_y_z
-    @calculatedFrom(
-""" ++ [28040; 24687]%N ++ runes_of_ascii """ ) ,
-}
-")).
-Eval vm_compute in ("<<<T209>>>" ++ terms [mkTok 34 "root" 1 0 false; mkTok 35 "packet" 1 5 false; mkTok 42 "body" 1 12 false; mkTok 2 "{" 1 16 false; mkTok 9 "@tag(" 2 0 false; mkTok 30 "4294967296" 3 0 false; mkTok 6 ")" 4 4 false; mkTok 42 "As" 5 0 false; mkTok 5 "@calculatedFrom(" 5 3 false; mkTok 31 (string_of_bytes [34; 240; 159; 152; 128; 34]%N) 5 19 false; mkTok 6 ")" 5 23 false; mkTok 43 "`a\`" 6 4 false; mkTok 40 "," 6 9 false; mkTok 44 "/// triple" 6 11 true; mkTok 3 "}" 7 0 false; mkTok 34 "root" 7 2 false; mkTok 35 "packet" 7 7 false; mkTok 42 "uint8x" 8 4 false; mkTok 2 "{" 9 0 false; mkTok 42 "MetaDataX" 9 2 false; mkTok 2 "{" 9 11 false; mkTok 36 "repeat" 9 13 false; mkTok 42 "matchKey" 10 0 false; mkTok 42 "lengthOf" 10 9 false; mkTok 40 "," 10 18 false; mkTok 36 "repeat" 10 20 false; mkTok 22 "u32" 10 27 false; mkTok 42 "uint8x" 10 31 false; mkTok 44 "// packet A { u8 x, }" 11 0 true; mkTok 44 "// a // b" 12 0 true; mkTok 43 "`doc`" 13 0 false; mkTok 44 "/// triple" 14 4 true; mkTok 40 "," 15 4 false; mkTok 3 "}" 16 0 false; mkTok 40 "," 16 2 false; mkTok 3 "}" 16 5 false; mkTok 1 "options" 16 7 false; mkTok 2 "{" 16 15 false; mkTok 42 "int" 16 17 false; mkTok 44 "// a // b" 16 21 true; mkTok 4 "=" 17 0 false; mkTok 31 """abc""" 18 4 false; mkTok 3 "}" 18 10 false; mkTok 35 "packet" 18 12 false; mkTok 44 "// trailing space " 19 4 true; mkTok 42 "u8x" 20 4 false; mkTok 2 "{" 20 8 false; mkTok 3 "}" 21 0 false; mkTok 34 "root" 21 2 false; mkTok 35 "packet" 22 0 false; mkTok 44 (string_of_bytes [47; 47; 32; 240; 159; 152; 128; 32; 101; 109; 111; 106; 105]%N) 22 7 true; mkTok 42 "falsey" 23 0 false; mkTok 2 "{" 23 7 false; mkTok 36 "repeat" 23 8 false; mkTok 28 "float32" 23 15 false; mkTok 42 "u" 23 23 false; mkTok 40 "," 23 25 false; mkTok 36 "repeat" 23 27 false; mkTok 16 "char[]" 23 34 false; mkTok 44 (string_of_bytes [47; 47; 32; 240; 159; 152; 128; 32; 101; 109; 111; 106; 105]%N) 24 0 true; mkTok 44 "// packet A { u8 x, }" 25 0 true; mkTok 42 "msg_type" 26 0 false; mkTok 43 (string_of_bytes [96; 10; 96]%N) 27 4 false; mkTok 40 "," 28 2 false; mkTok 32 "@leftPad" 28 4 false; mkTok 8 "(" 28 13 false; mkTok 33 "' '" 28 15 false; mkTok 6 ")" 28 18 false; mkTok 9 "@tag(" 29 4 false; mkTok 30 "255" 29 9 false; mkTok 6 ")" 30 0 false; mkTok 38 "match" 30 1 false; mkTok 42 "Header" 30 7 false; mkTok 17 "as" 30 14 false; mkTok 42 "msg_type" 30 17 false; mkTok 2 "{" 31 4 false; mkTok 30 "3" 31 6 false; mkTok 39 ":" 31 8 false; mkTok 42 "uint8x" 31 9 false; mkTok 40 "," 32 4 false; mkTok 30 "255" 33 4 false; mkTok 39 ":" 33 8 false; mkTok 42 "x" 34 0 false; mkTok 40 "," 34 2 false; mkTok 44 "// trailing space " 34 4 true; mkTok 30 "7" 35 0 false; mkTok 44 (string_of_bytes [47; 47; 32; 230; 179; 168; 233; 135; 138]%N) 35 2 true; mkTok 39 ":" 36 0 false; mkTok 42 "leftPad" 36 2 false; mkTok 44 "// c" 37 0 true; mkTok 44 "// `tick` ""quote"" 'q'" 38 0 true; mkTok 31 (string_of_bytes [34; 230; 182; 136; 230; 129; 175; 34]%N) 39 0 false; mkTok 44 "// packet A { u8 x, }" 40 0 true; mkTok 44 "// c" 41 0 true; mkTok 39 ":" 42 0 false; mkTok 42 "Packet" 42 2 false; mkTok 40 "," 42 9 false; mkTok 18 "[" 42 10 false; mkTok 30 "4294967296" 42 12 false; mkTok 40 "," 43 4 false; mkTok 31 """1""" 43 5 false; mkTok 13 "]" 43 9 false; mkTok 39 ":" 43 11 false; mkTok 42 "T" 44 4 false; mkTok 40 "," 44 6 false; mkTok 3 "}" 44 8 false; mkTok 40 "," 44 10 false; mkTok 44 (string_of_bytes [47; 47; 9; 116]%N) 45 4 true; mkTok 42 "Logon" 46 4 false; mkTok 5 "@calculatedFrom(" 46 10 false; mkTok 31 """x y""" 46 27 false; mkTok 6 ")" 46 32 false; mkTok 43 "`it's`" 46 35 false; mkTok 40 "," 47 0 false; mkTok 15 "string" 47 2 false; mkTok 42 "charz" 47 9 false; mkTok 5 "@calculatedFrom(" 47 15 false; mkTok 44 (string_of_bytes [47; 47; 32; 240; 159; 152; 128; 32; 101; 109; 111; 106; 105]%N) 48 0 true; mkTok 44 (string_of_bytes [47; 47; 9; 116]%N) 49 0 true; mkTok 31 """abc""" 50 0 false; mkTok 6 ")" 51 0 false; mkTok 40 "," 51 2 false; mkTok 15 "string" 52 0 false; mkTok 42 "options1" 52 7 false; mkTok 40 "," 52 16 false; mkTok 44 "/// triple" 53 0 true; mkTok 44 "/// triple" 54 0 true; mkTok 7 "@lengthOf(" 55 0 false; mkTok 44 "//" 56 0 true; mkTok 44 "//x" 57 0 true; mkTok 42 "As" 58 0 false; mkTok 6 ")" 59 4 false; mkTok 36 "repeat" 59 6 false; mkTok 14 "zchar[" 59 13 false; mkTok 44 "// `tick` ""quote"" 'q'" 59 20 true; mkTok 30 "7" 60 0 false; mkTok 13 "]" 60 2 false; mkTok 42 "zchar" 60 3 false; mkTok 40 "," 60 9 false; mkTok 7 "@lengthOf(" 60 11 false; mkTok 42 "crc" 61 4 false; mkTok 6 ")" 61 7 false; mkTok 42 "x_y_z" 61 8 false; mkTok 5 "@calculatedFrom(" 62 4 false; mkTok 31 (string_of_bytes [34; 230; 182; 136; 230; 129; 175; 34]%N) 63 0 false; mkTok 6 ")" 63 5 false; mkTok 40 "," 63 7 false; mkTok 3 "}" 64 0 false; mkTok 0 "<EOF>" 65 0 false] (mkPacket (mkPtok 34 "root" 1 0 0) (Some (mkPtok 3 "}" 64 0 147)) [(DPacket (mkPacketDef (mkSpan (mkPtok 34 "root" 1 0 0) (mkPtok 3 "}" 7 0 14)) (Some (mkPtok 34 "root" 1 0 0)) (mkPtok 35 "packet" 1 5 1) (mkPtok 42 "body" 1 12 2) (mkPtok 2 "{" 1 16 3) [(mkFieldWithAttr (mkSpan (mkPtok 9 "@tag(" 2 0 4) (mkPtok 40 "," 6 9 12)) [(FATag (mkSpan (mkPtok 9 "@tag(" 2 0 4) (mkPtok 6 ")" 4 4 6)) (mkTagAttr (mkSpan (mkPtok 9 "@tag(" 2 0 4) (mkPtok 6 ")" 4 4 6)) (mkPtok 9 "@tag(" 2 0 4) (mkPtok 30 "4294967296" 3 0 5) (mkPtok 6 ")" 4 4 6)))] (CheckSumField (mkSpan (mkPtok 42 "As" 5 0 7) (mkPtok 40 "," 6 9 12)) (mkChecksumFieldDecl (mkSpan (mkPtok 42 "As" 5 0 7) (mkPtok 40 "," 6 9 12)) None (mkPtok 42 "As" 5 0 7) (mkCalculatedFrom (mkSpan (mkPtok 5 "@calculatedFrom(" 5 3 8) (mkPtok 6 ")" 5 23 10)) (mkPtok 5 "@calculatedFrom(" 5 3 8) (mkPtok 31 (string_of_bytes [34; 240; 159; 152; 128; 34]%N) 5 19 9) (mkPtok 6 ")" 5 23 10)) (Some (mkPtok 43 "`a\`" 6 4 11)) (mkPtok 40 "," 6 9 12))))] (mkPtok 3 "}" 7 0 14))); (DPacket (mkPacketDef (mkSpan (mkPtok 34 "root" 7 2 15) (mkPtok 3 "}" 16 5 35)) (Some (mkPtok 34 "root" 7 2 15)) (mkPtok 35 "packet" 7 7 16) (mkPtok 42 "uint8x" 8 4 17) (mkPtok 2 "{" 9 0 18) [(mkFieldWithAttr (mkSpan (mkPtok 42 "MetaDataX" 9 2 19) (mkPtok 40 "," 16 2 34)) [] (InerObjectField (mkSpan (mkPtok 42 "MetaDataX" 9 2 19) (mkPtok 40 "," 16 2 34)) None (InerObjectDecl (mkSpan (mkPtok 42 "MetaDataX" 9 2 19) (mkPtok 3 "}" 16 0 33)) (mkPtok 42 "MetaDataX" 9 2 19) (mkPtok 2 "{" 9 11 20) [(ObjectField (mkSpan (mkPtok 36 "repeat" 9 13 21) (mkPtok 40 "," 10 18 24)) (Some (mkPtok 36 "repeat" 9 13 21)) (mkPtok 42 "matchKey" 10 0 22) (Some (mkPtok 42 "lengthOf" 10 9 23)) None (mkPtok 40 "," 10 18 24)); (MetaField (mkSpan (mkPtok 36 "repeat" 10 20 25) (mkPtok 40 "," 15 4 32)) (Some (mkPtok 36 "repeat" 10 20 25)) (mkMetaDecl (mkSpan (mkPtok 22 "u32" 10 27 26) (mkPtok 40 "," 15 4 32)) (TyBasic (mkSpan (mkPtok 22 "u32" 10 27 26) (mkPtok 22 "u32" 10 27 26)) (mkBasicType (mkSpan (mkPtok 22 "u32" 10 27 26) (mkPtok 22 "u32" 10 27 26)) (mkPtok 22 "u32" 10 27 26))) (mkPtok 42 "uint8x" 10 31 27) (Some (mkPtok 43 "`doc`" 13 0 30)) (mkPtok 40 "," 15 4 32)))] (mkPtok 3 "}" 16 0 33)) (mkPtok 40 "," 16 2 34)))] (mkPtok 3 "}" 16 5 35))); (DOption (mkOptionDef (mkSpan (mkPtok 1 "options" 16 7 36) (mkPtok 3 "}" 18 10 42)) (mkPtok 1 "options" 16 7 36) (mkPtok 2 "{" 16 15 37) [(mkOptionDecl (mkSpan (mkPtok 42 "int" 16 17 38) (mkPtok 31 """abc""" 18 4 41)) (mkPtok 42 "int" 16 17 38) (mkPtok 4 "=" 17 0 40) (VString (mkSpan (mkPtok 31 """abc""" 18 4 41) (mkPtok 31 """abc""" 18 4 41)) (mkPtok 31 """abc""" 18 4 41)) None)] (mkPtok 3 "}" 18 10 42))); (DPacket (mkPacketDef (mkSpan (mkPtok 35 "packet" 18 12 43) (mkPtok 3 "}" 21 0 47)) None (mkPtok 35 "packet" 18 12 43) (mkPtok 42 "u8x" 20 4 45) (mkPtok 2 "{" 20 8 46) [] (mkPtok 3 "}" 21 0 47))); (DPacket (mkPacketDef (mkSpan (mkPtok 34 "root" 21 2 48) (mkPtok 3 "}" 64 0 147)) (Some (mkPtok 34 "root" 21 2 48)) (mkPtok 35 "packet" 22 0 49) (mkPtok 42 "falsey" 23 0 51) (mkPtok 2 "{" 23 7 52) [(mkFieldWithAttr (mkSpan (mkPtok 36 "repeat" 23 8 53) (mkPtok 40 "," 23 25 56)) [] (MetaField (mkSpan (mkPtok 36 "repeat" 23 8 53) (mkPtok 40 "," 23 25 56)) (Some (mkPtok 36 "repeat" 23 8 53)) (mkMetaDecl (mkSpan (mkPtok 28 "float32" 23 15 54) (mkPtok 40 "," 23 25 56)) (TyBasic (mkSpan (mkPtok 28 "float32" 23 15 54) (mkPtok 28 "float32" 23 15 54)) (mkBasicType (mkSpan (mkPtok 28 "float32" 23 15 54) (mkPtok 28 "float32" 23 15 54)) (mkPtok 28 "float32" 23 15 54))) (mkPtok 42 "u" 23 23 55) None (mkPtok 40 "," 23 25 56)))); (mkFieldWithAttr (mkSpan (mkPtok 36 "repeat" 23 27 57) (mkPtok 40 "," 28 2 63)) [] (MetaField (mkSpan (mkPtok 36 "repeat" 23 27 57) (mkPtok 40 "," 28 2 63)) (Some (mkPtok 36 "repeat" 23 27 57)) (mkMetaDecl (mkSpan (mkPtok 16 "char[]" 23 34 58) (mkPtok 40 "," 28 2 63)) (TyDynamic (mkSpan (mkPtok 16 "char[]" 23 34 58) (mkPtok 16 "char[]" 23 34 58)) (mkDynamicString (mkSpan (mkPtok 16 "char[]" 23 34 58) (mkPtok 16 "char[]" 23 34 58)) (mkPtok 16 "char[]" 23 34 58))) (mkPtok 42 "msg_type" 26 0 61) (Some (mkPtok 43 (string_of_bytes [96; 10; 96]%N) 27 4 62)) (mkPtok 40 "," 28 2 63)))); (mkFieldWithAttr (mkSpan (mkPtok 32 "@leftPad" 28 4 64) (mkPtok 40 "," 44 10 106)) [(FAPadding (mkSpan (mkPtok 32 "@leftPad" 28 4 64) (mkPtok 6 ")" 28 18 67)) (mkPaddingAttr (mkSpan (mkPtok 32 "@leftPad" 28 4 64) (mkPtok 6 ")" 28 18 67)) (mkPtok 32 "@leftPad" 28 4 64) (mkPtok 8 "(" 28 13 65) (Some (mkPtok 33 "' '" 28 15 66)) (mkPtok 6 ")" 28 18 67))); (FATag (mkSpan (mkPtok 9 "@tag(" 29 4 68) (mkPtok 6 ")" 30 0 70)) (mkTagAttr (mkSpan (mkPtok 9 "@tag(" 29 4 68) (mkPtok 6 ")" 30 0 70)) (mkPtok 9 "@tag(" 29 4 68) (mkPtok 30 "255" 29 9 69) (mkPtok 6 ")" 30 0 70)))] (MatchField (mkSpan (mkPtok 38 "match" 30 1 71) (mkPtok 40 "," 44 10 106)) (mkMatchFieldDecl (mkSpan (mkPtok 38 "match" 30 1 71) (mkPtok 3 "}" 44 8 105)) (mkPtok 38 "match" 30 1 71) (mkPtok 42 "Header" 30 7 72) (mkPtok 17 "as" 30 14 73) (mkPtok 42 "msg_type" 30 17 74) (mkPtok 2 "{" 31 4 75) [(mkMatchPair (mkSpan (mkPtok 30 "3" 31 6 76) (mkPtok 40 "," 32 4 79)) (MKDigits (mkPtok 30 "3" 31 6 76)) (mkPtok 39 ":" 31 8 77) (mkPtok 42 "uint8x" 31 9 78) (Some (mkPtok 40 "," 32 4 79))); (mkMatchPair (mkSpan (mkPtok 30 "255" 33 4 80) (mkPtok 40 "," 34 2 83)) (MKDigits (mkPtok 30 "255" 33 4 80)) (mkPtok 39 ":" 33 8 81) (mkPtok 42 "x" 34 0 82) (Some (mkPtok 40 "," 34 2 83))); (mkMatchPair (mkSpan (mkPtok 30 "7" 35 0 85) (mkPtok 42 "leftPad" 36 2 88)) (MKDigits (mkPtok 30 "7" 35 0 85)) (mkPtok 39 ":" 36 0 87) (mkPtok 42 "leftPad" 36 2 88) None); (mkMatchPair (mkSpan (mkPtok 31 (string_of_bytes [34; 230; 182; 136; 230; 129; 175; 34]%N) 39 0 91) (mkPtok 40 "," 42 9 96)) (MKString (mkPtok 31 (string_of_bytes [34; 230; 182; 136; 230; 129; 175; 34]%N) 39 0 91)) (mkPtok 39 ":" 42 0 94) (mkPtok 42 "Packet" 42 2 95) (Some (mkPtok 40 "," 42 9 96))); (mkMatchPair (mkSpan (mkPtok 18 "[" 42 10 97) (mkPtok 40 "," 44 6 104)) (MKList (mkKeyList (mkSpan (mkPtok 18 "[" 42 10 97) (mkPtok 13 "]" 43 9 101)) (mkPtok 18 "[" 42 10 97) (mkPtok 30 "4294967296" 42 12 98) [((mkPtok 40 "," 43 4 99), (mkPtok 31 """1""" 43 5 100))] (mkPtok 13 "]" 43 9 101))) (mkPtok 39 ":" 43 11 102) (mkPtok 42 "T" 44 4 103) (Some (mkPtok 40 "," 44 6 104)))] (mkPtok 3 "}" 44 8 105)) (mkPtok 40 "," 44 10 106))); (mkFieldWithAttr (mkSpan (mkPtok 42 "Logon" 46 4 108) (mkPtok 40 "," 47 0 113)) [] (CheckSumField (mkSpan (mkPtok 42 "Logon" 46 4 108) (mkPtok 40 "," 47 0 113)) (mkChecksumFieldDecl (mkSpan (mkPtok 42 "Logon" 46 4 108) (mkPtok 40 "," 47 0 113)) None (mkPtok 42 "Logon" 46 4 108) (mkCalculatedFrom (mkSpan (mkPtok 5 "@calculatedFrom(" 46 10 109) (mkPtok 6 ")" 46 32 111)) (mkPtok 5 "@calculatedFrom(" 46 10 109) (mkPtok 31 """x y""" 46 27 110) (mkPtok 6 ")" 46 32 111)) (Some (mkPtok 43 "`it's`" 46 35 112)) (mkPtok 40 "," 47 0 113)))); (mkFieldWithAttr (mkSpan (mkPtok 15 "string" 47 2 114) (mkPtok 40 "," 51 2 121)) [] (CheckSumField (mkSpan (mkPtok 15 "string" 47 2 114) (mkPtok 40 "," 51 2 121)) (mkChecksumFieldDecl (mkSpan (mkPtok 15 "string" 47 2 114) (mkPtok 40 "," 51 2 121)) (Some (TyDynamic (mkSpan (mkPtok 15 "string" 47 2 114) (mkPtok 15 "string" 47 2 114)) (mkDynamicString (mkSpan (mkPtok 15 "string" 47 2 114) (mkPtok 15 "string" 47 2 114)) (mkPtok 15 "string" 47 2 114)))) (mkPtok 42 "charz" 47 9 115) (mkCalculatedFrom (mkSpan (mkPtok 5 "@calculatedFrom(" 47 15 116) (mkPtok 6 ")" 51 0 120)) (mkPtok 5 "@calculatedFrom(" 47 15 116) (mkPtok 31 """abc""" 50 0 119) (mkPtok 6 ")" 51 0 120)) None (mkPtok 40 "," 51 2 121)))); (mkFieldWithAttr (mkSpan (mkPtok 15 "string" 52 0 122) (mkPtok 40 "," 52 16 124)) [] (MetaField (mkSpan (mkPtok 15 "string" 52 0 122) (mkPtok 40 "," 52 16 124)) None (mkMetaDecl (mkSpan (mkPtok 15 "string" 52 0 122) (mkPtok 40 "," 52 16 124)) (TyDynamic (mkSpan (mkPtok 15 "string" 52 0 122) (mkPtok 15 "string" 52 0 122)) (mkDynamicString (mkSpan (mkPtok 15 "string" 52 0 122) (mkPtok 15 "string" 52 0 122)) (mkPtok 15 "string" 52 0 122))) (mkPtok 42 "options1" 52 7 123) None (mkPtok 40 "," 52 16 124)))); (mkFieldWithAttr (mkSpan (mkPtok 7 "@lengthOf(" 55 0 127) (mkPtok 40 "," 60 9 138)) [(FALengthOf (mkSpan (mkPtok 7 "@lengthOf(" 55 0 127) (mkPtok 6 ")" 59 4 131)) (mkLengthOf (mkSpan (mkPtok 7 "@lengthOf(" 55 0 127) (mkPtok 6 ")" 59 4 131)) (mkPtok 7 "@lengthOf(" 55 0 127) (mkPtok 42 "As" 58 0 130) (mkPtok 6 ")" 59 4 131)))] (MetaField (mkSpan (mkPtok 36 "repeat" 59 6 132) (mkPtok 40 "," 60 9 138)) (Some (mkPtok 36 "repeat" 59 6 132)) (mkMetaDecl (mkSpan (mkPtok 14 "zchar[" 59 13 133) (mkPtok 40 "," 60 9 138)) (TyFixed (mkSpan (mkPtok 14 "zchar[" 59 13 133) (mkPtok 13 "]" 60 2 136)) (mkFixedString (mkSpan (mkPtok 14 "zchar[" 59 13 133) (mkPtok 13 "]" 60 2 136)) (mkPtok 14 "zchar[" 59 13 133) (mkPtok 30 "7" 60 0 135) (mkPtok 13 "]" 60 2 136))) (mkPtok 42 "zchar" 60 3 137) None (mkPtok 40 "," 60 9 138)))); (mkFieldWithAttr (mkSpan (mkPtok 7 "@lengthOf(" 60 11 139) (mkPtok 40 "," 63 7 146)) [(FALengthOf (mkSpan (mkPtok 7 "@lengthOf(" 60 11 139) (mkPtok 6 ")" 61 7 141)) (mkLengthOf (mkSpan (mkPtok 7 "@lengthOf(" 60 11 139) (mkPtok 6 ")" 61 7 141)) (mkPtok 7 "@lengthOf(" 60 11 139) (mkPtok 42 "crc" 61 4 140) (mkPtok 6 ")" 61 7 141)))] (CheckSumField (mkSpan (mkPtok 42 "x_y_z" 61 8 142) (mkPtok 40 "," 63 7 146)) (mkChecksumFieldDecl (mkSpan (mkPtok 42 "x_y_z" 61 8 142) (mkPtok 40 "," 63 7 146)) None (mkPtok 42 "x_y_z" 61 8 142) (mkCalculatedFrom (mkSpan (mkPtok 5 "@calculatedFrom(" 62 4 143) (mkPtok 6 ")" 63 5 145)) (mkPtok 5 "@calculatedFrom(" 62 4 143) (mkPtok 31 (string_of_bytes [34; 230; 182; 136; 230; 129; 175; 34]%N) 63 0 144) (mkPtok 6 ")" 63 5 145)) None (mkPtok 40 "," 63 7 146))))] (mkPtok 3 "}" 64 0 147)))])).
-Eval vm_compute in ("<<<M219>>>" ++ check (runes_of_ascii "packet
-i64_
-{ f64 float,@tag( 0 ) @lengthOf(u )
-    float64 _x  @calculatedFrom(
-    ""x y"" )
-,}
-MetaData matchKey {
-} packet roots { }")).
-Eval vm_compute in ("<<<M229>>>" ++ check (runes_of_ascii "
-MetaData BodyLength
-{  int32 chars
-    `u8 x,` , char[
-0123456789 ] // c
-matchKey `a\` ,
 char[]
-    //
-    A , } packet//x
+packetx
+,	} options
+    { trueish
+= ' '
+; i64_ =
+i16 pack = u16
+;
+len =false }	MetaData i64_{ }")).
+Eval vm_compute in ("<<<M49>>>" ++ check (runes_of_ascii "packet uint8x // 50% %s
+{ char[]
+crc`" ++ [233]%N ++ runes_of_ascii "`
+,
+u8 //x
+BodyLength`crlf
+line` , @tag(65535 )
+@calculatedFrom( ""packet"" ) uint8x {
+lengthOf
+{ match
+u8x as msg_type  {
+    ""{,}"" : metadata
+, 4294967296 : float ,10 :
+a1 ,	65535 : len, """ ++ [128512]%N ++ runes_of_ascii """
+: zchar ,[
+""" ++ [128512]%N ++ runes_of_ascii """ ]
+    :
+Pad	,} , zchar[ 42 ] leftPad , f64/// triple
+crc ,
+    u64
+A@calculatedFrom( ""CRC32"" ) , }
+    , }
+, @lengthOf(
+crc) repeat
+u128 Pad
+    , stringy
+    trueish`say ""hi""`
+,
+As matchKey  ,@tag( 10 )
+    charz @calculatedFrom( ""it's"") // trailing space 
+, // " ++ [128512]%N ++ runes_of_ascii " emoji
+@rightPad (
+' ' ) a1 float	,
+}
+")).
+Eval vm_compute in ("<<<M59>>>" ++ check (runes_of_ascii "packet Header { repeat int32 options1
+, } //x")).
+Eval vm_compute in ("<<<M69>>>" ++ check (runes_of_ascii "// packet A { u8 x, }
+MetaData len { uint16 stringy	`tab	here` , char  msg_type ,}packet Header{leftPad{ trueish , u
+, repeat crc asx ,
+} , @calculatedFrom(""" ++ [128512]%N ++ runes_of_ascii """
+) // packet A { u8 x, }
+uint32
+int ,calculatedFrom @calculatedFrom( ""\n"") , @leftPad (
+    ' ' )@calculatedFrom( """ ++ [233]%N ++ runes_of_ascii "t" ++ [233]%N ++ runes_of_ascii """ )@tag( 007 )
+    // packet A { u8 x, }
+    char[ 00] As , } packet _x { /// triple
+@calculatedFrom( """ ++ [128512]%N ++ runes_of_ascii """	) repeat calculatedFrom
+`" ++ [28040; 24687; 31867; 22411]%N ++ runes_of_ascii "`,@tag( 10
+)
+// a // b
+// c
+repeat
+    Foo, @calculatedFrom(
+    // @lengthOf(
+    ""abc"") @calculatedFrom(""x y"") @lengthOf( i64_) repeat Z9_
+    int
+    `u8 x,` ,
+}")).
+Eval vm_compute in ("<<<T69>>>" ++ terms [mkTok 44 "// packet A { u8 x, }" 1 0 true; mkTok 37 "MetaData" 2 0 false; mkTok 42 "len" 2 9 false; mkTok 2 "{" 2 13 false; mkTok 21 "uint16" 2 15 false; mkTok 42 "stringy" 2 22 false; mkTok 43 (string_of_bytes [96; 116; 97; 98; 9; 104; 101; 114; 101; 96]%N) 2 30 false; mkTok 40 "," 2 41 false; mkTok 19 "char" 2 43 false; mkTok 42 "msg_type" 2 49 false; mkTok 40 "," 2 58 false; mkTok 3 "}" 2 59 false; mkTok 35 "packet" 2 60 false; mkTok 42 "Header" 2 67 false; mkTok 2 "{" 2 73 false; mkTok 42 "leftPad" 2 74 false; mkTok 2 "{" 2 81 false; mkTok 42 "trueish" 2 83 false; mkTok 40 "," 2 91 false; mkTok 42 "u" 2 93 false; mkTok 40 "," 3 0 false; mkTok 36 "repeat" 3 2 false; mkTok 42 "crc" 3 9 false; mkTok 42 "asx" 3 13 false; mkTok 40 "," 3 17 false; mkTok 3 "}" 4 0 false; mkTok 40 "," 4 2 false; mkTok 5 "@calculatedFrom(" 4 4 false; mkTok 31 (string_of_bytes [34; 240; 159; 152; 128; 34]%N) 4 20 false; mkTok 6 ")" 5 0 false; mkTok 44 "// packet A { u8 x, }" 5 2 true; mkTok 22 "uint32" 6 0 false; mkTok 42 "int" 7 0 false; mkTok 40 "," 7 4 false; mkTok 42 "calculatedFrom" 7 5 false; mkTok 5 "@calculatedFrom(" 7 20 false; mkTok 31 """\n""" 7 37 false; mkTok 6 ")" 7 41 false; mkTok 40 "," 7 43 false; mkTok 32 "@leftPad" 7 45 false; mkTok 8 "(" 7 54 false; mkTok 33 "' '" 8 4 false; mkTok 6 ")" 8 8 false; mkTok 5 "@calculatedFrom(" 8 9 false; mkTok 31 (string_of_bytes [34; 195; 169; 116; 195; 169; 34]%N) 8 26 false; mkTok 6 ")" 8 32 false; mkTok 9 "@tag(" 8 33 false; mkTok 30 "007" 8 39 false; mkTok 6 ")" 8 43 false; mkTok 44 "// packet A { u8 x, }" 9 4 true; mkTok 12 "char[" 10 4 false; mkTok 30 "00" 10 10 false; mkTok 13 "]" 10 12 false; mkTok 42 "As" 10 14 false; mkTok 40 "," 10 17 false; mkTok 3 "}" 10 19 false; mkTok 35 "packet" 10 21 false; mkTok 42 "_x" 10 28 false; mkTok 2 "{" 10 31 false; mkTok 44 "/// triple" 10 33 true; mkTok 5 "@calculatedFrom(" 11 0 false; mkTok 31 (string_of_bytes [34; 240; 159; 152; 128; 34]%N) 11 17 false; mkTok 6 ")" 11 21 false; mkTok 36 "repeat" 11 23 false; mkTok 42 "calculatedFrom" 11 30 false; mkTok 43 (string_of_bytes [96; 230; 182; 136; 230; 129; 175; 231; 177; 187; 229; 158; 139; 96]%N) 12 0 false; mkTok 40 "," 12 6 false; mkTok 9 "@tag(" 12 7 false; mkTok 30 "10" 12 13 false; mkTok 6 ")" 13 0 false; mkTok 44 "// a // b" 14 0 true; mkTok 44 "// c" 15 0 true; mkTok 36 "repeat" 16 0 false; mkTok 42 "Foo" 17 4 false; mkTok 40 "," 17 7 false; mkTok 5 "@calculatedFrom(" 17 9 false; mkTok 44 "// @lengthOf(" 18 4 true; mkTok 31 """abc""" 19 4 false; mkTok 6 ")" 19 9 false; mkTok 5 "@calculatedFrom(" 19 11 false; mkTok 31 """x y""" 19 27 false; mkTok 6 ")" 19 32 false; mkTok 7 "@lengthOf(" 19 34 false; mkTok 42 "i64_" 19 45 false; mkTok 6 ")" 19 49 false; mkTok 36 "repeat" 19 51 false; mkTok 42 "Z9_" 19 58 false; mkTok 42 "int" 20 4 false; mkTok 43 "`u8 x,`" 21 4 false; mkTok 40 "," 21 12 false; mkTok 3 "}" 22 0 false; mkTok 0 "<EOF>" 22 1 false] (mkPacket (mkPtok 37 "MetaData" 2 0 1) (Some (mkPtok 3 "}" 22 0 90)) [(DMeta (mkMetaDef (mkSpan (mkPtok 37 "MetaData" 2 0 1) (mkPtok 3 "}" 2 59 11)) (mkPtok 37 "MetaData" 2 0 1) (mkPtok 42 "len" 2 9 2) (mkPtok 2 "{" 2 13 3) [(MIDecl (mkMetaDecl (mkSpan (mkPtok 21 "uint16" 2 15 4) (mkPtok 40 "," 2 41 7)) (TyBasic (mkSpan (mkPtok 21 "uint16" 2 15 4) (mkPtok 21 "uint16" 2 15 4)) (mkBasicType (mkSpan (mkPtok 21 "uint16" 2 15 4) (mkPtok 21 "uint16" 2 15 4)) (mkPtok 21 "uint16" 2 15 4))) (mkPtok 42 "stringy" 2 22 5) (Some (mkPtok 43 (string_of_bytes [96; 116; 97; 98; 9; 104; 101; 114; 101; 96]%N) 2 30 6)) (mkPtok 40 "," 2 41 7))); (MIDecl (mkMetaDecl (mkSpan (mkPtok 19 "char" 2 43 8) (mkPtok 40 "," 2 58 10)) (TyBasic (mkSpan (mkPtok 19 "char" 2 43 8) (mkPtok 19 "char" 2 43 8)) (mkBasicType (mkSpan (mkPtok 19 "char" 2 43 8) (mkPtok 19 "char" 2 43 8)) (mkPtok 19 "char" 2 43 8))) (mkPtok 42 "msg_type" 2 49 9) None (mkPtok 40 "," 2 58 10)))] (mkPtok 3 "}" 2 59 11))); (DPacket (mkPacketDef (mkSpan (mkPtok 35 "packet" 2 60 12) (mkPtok 3 "}" 10 19 55)) None (mkPtok 35 "packet" 2 60 12) (mkPtok 42 "Header" 2 67 13) (mkPtok 2 "{" 2 73 14) [(mkFieldWithAttr (mkSpan (mkPtok 42 "leftPad" 2 74 15) (mkPtok 40 "," 4 2 26)) [] (InerObjectField (mkSpan (mkPtok 42 "leftPad" 2 74 15) (mkPtok 40 "," 4 2 26)) None (InerObjectDecl (mkSpan (mkPtok 42 "leftPad" 2 74 15) (mkPtok 3 "}" 4 0 25)) (mkPtok 42 "leftPad" 2 74 15) (mkPtok 2 "{" 2 81 16) [(ObjectField (mkSpan (mkPtok 42 "trueish" 2 83 17) (mkPtok 40 "," 2 91 18)) None (mkPtok 42 "trueish" 2 83 17) None None (mkPtok 40 "," 2 91 18)); (ObjectField (mkSpan (mkPtok 42 "u" 2 93 19) (mkPtok 40 "," 3 0 20)) None (mkPtok 42 "u" 2 93 19) None None (mkPtok 40 "," 3 0 20)); (ObjectField (mkSpan (mkPtok 36 "repeat" 3 2 21) (mkPtok 40 "," 3 17 24)) (Some (mkPtok 36 "repeat" 3 2 21)) (mkPtok 42 "crc" 3 9 22) (Some (mkPtok 42 "asx" 3 13 23)) None (mkPtok 40 "," 3 17 24))] (mkPtok 3 "}" 4 0 25)) (mkPtok 40 "," 4 2 26))); (mkFieldWithAttr (mkSpan (mkPtok 5 "@calculatedFrom(" 4 4 27) (mkPtok 40 "," 7 4 33)) [(FACalculatedFrom (mkSpan (mkPtok 5 "@calculatedFrom(" 4 4 27) (mkPtok 6 ")" 5 0 29)) (mkCalculatedFrom (mkSpan (mkPtok 5 "@calculatedFrom(" 4 4 27) (mkPtok 6 ")" 5 0 29)) (mkPtok 5 "@calculatedFrom(" 4 4 27) (mkPtok 31 (string_of_bytes [34; 240; 159; 152; 128; 34]%N) 4 20 28) (mkPtok 6 ")" 5 0 29)))] (MetaField (mkSpan (mkPtok 22 "uint32" 6 0 31) (mkPtok 40 "," 7 4 33)) None (mkMetaDecl (mkSpan (mkPtok 22 "uint32" 6 0 31) (mkPtok 40 "," 7 4 33)) (TyBasic (mkSpan (mkPtok 22 "uint32" 6 0 31) (mkPtok 22 "uint32" 6 0 31)) (mkBasicType (mkSpan (mkPtok 22 "uint32" 6 0 31) (mkPtok 22 "uint32" 6 0 31)) (mkPtok 22 "uint32" 6 0 31))) (mkPtok 42 "int" 7 0 32) None (mkPtok 40 "," 7 4 33)))); (mkFieldWithAttr (mkSpan (mkPtok 42 "calculatedFrom" 7 5 34) (mkPtok 40 "," 7 43 38)) [] (CheckSumField (mkSpan (mkPtok 42 "calculatedFrom" 7 5 34) (mkPtok 40 "," 7 43 38)) (mkChecksumFieldDecl (mkSpan (mkPtok 42 "calculatedFrom" 7 5 34) (mkPtok 40 "," 7 43 38)) None (mkPtok 42 "calculatedFrom" 7 5 34) (mkCalculatedFrom (mkSpan (mkPtok 5 "@calculatedFrom(" 7 20 35) (mkPtok 6 ")" 7 41 37)) (mkPtok 5 "@calculatedFrom(" 7 20 35) (mkPtok 31 """\n""" 7 37 36) (mkPtok 6 ")" 7 41 37)) None (mkPtok 40 "," 7 43 38)))); (mkFieldWithAttr (mkSpan (mkPtok 32 "@leftPad" 7 45 39) (mkPtok 40 "," 10 17 54)) [(FAPadding (mkSpan (mkPtok 32 "@leftPad" 7 45 39) (mkPtok 6 ")" 8 8 42)) (mkPaddingAttr (mkSpan (mkPtok 32 "@leftPad" 7 45 39) (mkPtok 6 ")" 8 8 42)) (mkPtok 32 "@leftPad" 7 45 39) (mkPtok 8 "(" 7 54 40) (Some (mkPtok 33 "' '" 8 4 41)) (mkPtok 6 ")" 8 8 42))); (FACalculatedFrom (mkSpan (mkPtok 5 "@calculatedFrom(" 8 9 43) (mkPtok 6 ")" 8 32 45)) (mkCalculatedFrom (mkSpan (mkPtok 5 "@calculatedFrom(" 8 9 43) (mkPtok 6 ")" 8 32 45)) (mkPtok 5 "@calculatedFrom(" 8 9 43) (mkPtok 31 (string_of_bytes [34; 195; 169; 116; 195; 169; 34]%N) 8 26 44) (mkPtok 6 ")" 8 32 45))); (FATag (mkSpan (mkPtok 9 "@tag(" 8 33 46) (mkPtok 6 ")" 8 43 48)) (mkTagAttr (mkSpan (mkPtok 9 "@tag(" 8 33 46) (mkPtok 6 ")" 8 43 48)) (mkPtok 9 "@tag(" 8 33 46) (mkPtok 30 "007" 8 39 47) (mkPtok 6 ")" 8 43 48)))] (MetaField (mkSpan (mkPtok 12 "char[" 10 4 50) (mkPtok 40 "," 10 17 54)) None (mkMetaDecl (mkSpan (mkPtok 12 "char[" 10 4 50) (mkPtok 40 "," 10 17 54)) (TyFixed (mkSpan (mkPtok 12 "char[" 10 4 50) (mkPtok 13 "]" 10 12 52)) (mkFixedString (mkSpan (mkPtok 12 "char[" 10 4 50) (mkPtok 13 "]" 10 12 52)) (mkPtok 12 "char[" 10 4 50) (mkPtok 30 "00" 10 10 51) (mkPtok 13 "]" 10 12 52))) (mkPtok 42 "As" 10 14 53) None (mkPtok 40 "," 10 17 54))))] (mkPtok 3 "}" 10 19 55))); (DPacket (mkPacketDef (mkSpan (mkPtok 35 "packet" 10 21 56) (mkPtok 3 "}" 22 0 90)) None (mkPtok 35 "packet" 10 21 56) (mkPtok 42 "_x" 10 28 57) (mkPtok 2 "{" 10 31 58) [(mkFieldWithAttr (mkSpan (mkPtok 5 "@calculatedFrom(" 11 0 60) (mkPtok 40 "," 12 6 66)) [(FACalculatedFrom (mkSpan (mkPtok 5 "@calculatedFrom(" 11 0 60) (mkPtok 6 ")" 11 21 62)) (mkCalculatedFrom (mkSpan (mkPtok 5 "@calculatedFrom(" 11 0 60) (mkPtok 6 ")" 11 21 62)) (mkPtok 5 "@calculatedFrom(" 11 0 60) (mkPtok 31 (string_of_bytes [34; 240; 159; 152; 128; 34]%N) 11 17 61) (mkPtok 6 ")" 11 21 62)))] (ObjectField (mkSpan (mkPtok 36 "repeat" 11 23 63) (mkPtok 40 "," 12 6 66)) (Some (mkPtok 36 "repeat" 11 23 63)) (mkPtok 42 "calculatedFrom" 11 30 64) None (Some (mkPtok 43 (string_of_bytes [96; 230; 182; 136; 230; 129; 175; 231; 177; 187; 229; 158; 139; 96]%N) 12 0 65)) (mkPtok 40 "," 12 6 66))); (mkFieldWithAttr (mkSpan (mkPtok 9 "@tag(" 12 7 67) (mkPtok 40 "," 17 7 74)) [(FATag (mkSpan (mkPtok 9 "@tag(" 12 7 67) (mkPtok 6 ")" 13 0 69)) (mkTagAttr (mkSpan (mkPtok 9 "@tag(" 12 7 67) (mkPtok 6 ")" 13 0 69)) (mkPtok 9 "@tag(" 12 7 67) (mkPtok 30 "10" 12 13 68) (mkPtok 6 ")" 13 0 69)))] (ObjectField (mkSpan (mkPtok 36 "repeat" 16 0 72) (mkPtok 40 "," 17 7 74)) (Some (mkPtok 36 "repeat" 16 0 72)) (mkPtok 42 "Foo" 17 4 73) None None (mkPtok 40 "," 17 7 74))); (mkFieldWithAttr (mkSpan (mkPtok 5 "@calculatedFrom(" 17 9 75) (mkPtok 40 "," 21 12 89)) [(FACalculatedFrom (mkSpan (mkPtok 5 "@calculatedFrom(" 17 9 75) (mkPtok 6 ")" 19 9 78)) (mkCalculatedFrom (mkSpan (mkPtok 5 "@calculatedFrom(" 17 9 75) (mkPtok 6 ")" 19 9 78)) (mkPtok 5 "@calculatedFrom(" 17 9 75) (mkPtok 31 """abc""" 19 4 77) (mkPtok 6 ")" 19 9 78))); (FACalculatedFrom (mkSpan (mkPtok 5 "@calculatedFrom(" 19 11 79) (mkPtok 6 ")" 19 32 81)) (mkCalculatedFrom (mkSpan (mkPtok 5 "@calculatedFrom(" 19 11 79) (mkPtok 6 ")" 19 32 81)) (mkPtok 5 "@calculatedFrom(" 19 11 79) (mkPtok 31 """x y""" 19 27 80) (mkPtok 6 ")" 19 32 81))); (FALengthOf (mkSpan (mkPtok 7 "@lengthOf(" 19 34 82) (mkPtok 6 ")" 19 49 84)) (mkLengthOf (mkSpan (mkPtok 7 "@lengthOf(" 19 34 82) (mkPtok 6 ")" 19 49 84)) (mkPtok 7 "@lengthOf(" 19 34 82) (mkPtok 42 "i64_" 19 45 83) (mkPtok 6 ")" 19 49 84)))] (ObjectField (mkSpan (mkPtok 36 "repeat" 19 51 85) (mkPtok 40 "," 21 12 89)) (Some (mkPtok 36 "repeat" 19 51 85)) (mkPtok 42 "Z9_" 19 58 86) (Some (mkPtok 42 "int" 20 4 87)) (Some (mkPtok 43 "`u8 x,`" 21 4 88)) (mkPtok 40 "," 21 12 89)))] (mkPtok 3 "}" 22 0 90)))])).
+Eval vm_compute in ("<<<M79>>>" ++ check (runes_of_ascii "options
+{ }")).
+Eval vm_compute in ("<<<M89>>>" ++ check (runes_of_ascii "packet	i64_ { }
+")).
+Eval vm_compute in ("<<<M99>>>" ++ check (runes_of_ascii "packet calculatedFrom
+{
+    @tag( 00)
+    @calculatedFrom(
+""`tick`"" ) trueish@calculatedFrom(""x y"" )	,
+i8 // 50% %s
+u8x , @lengthOf( body ) uint8x
+x ,  msg_type { // packet A { u8 x, }
+char[] Pad`two words` ,
+} , } //	t
+options { charz =
+    7 ; u8x = zchar[ 255 ]
+;//	t
 u128
-    {}
-packet rootA
-{float64// c
-roots ,  @lengthOf(
-    float// `tick` ""quote"" 'q'
-)//	t
-repeat BodyLength { BodyLength{
-    repeat
-f64 Packet, char[ 7
+    =""`tick`"" calculatedFrom = false
+;} options {}
+")).
+Eval vm_compute in ("<<<M109>>>" ++ check (runes_of_ascii "MetaData Foo{ uint64
+uint8x
+`` ,int16
+Z9_
+    ,
+    uint8x i8i8,
+}
+packet Header { @lengthOf(o  ) @rightPad
+    ( '0'  )
+zchar[ 0123456789 ] Z9_,
+} packet	Foo { repeat	uint8 T , }packet packetx
+    // @lengthOf(
+    { }")).
+Eval vm_compute in ("<<<M119>>>" ++ check (runes_of_ascii "options
+{Packet =char[ 7
+/// triple
+//
+] ;
+a1
+=""it's"" ;}MetaData charz {
+    As calculatedFrom , uint8 float
+    `{ , }`
+, charz msg_type
+    , }
+    MetaData i8i8
+{char[]// " ++ [128512]%N ++ runes_of_ascii " emoji
+x_y_z
+`say ""hi""`,
+}
+packet i64_	{ @tag(
+0123456789 )
+x_y_z@calculatedFrom( ""it's""	) ,@rightPad
+(  ' '	) @tag(007 ) leftPad {
+    // @lengthOf(
+    zchar[ 00 ] Pad, }	,int32
+    _x @lengthOf(BodyLength )
+,@calculatedFrom(""{,}"" )
+    float32 Foo ,rootA
+@lengthOf( charz) , f64 _x@calculatedFrom( ""{,}""  )	`a\`
+    , }")).
+Eval vm_compute in ("<<<M129>>>" ++ check (runes_of_ascii "options {	string_ =u32 ;
+//x
+// `tick` ""quote"" 'q'
+options1 = ""`tick`"" ;
+} 	 ")).
+Eval vm_compute in ("<<<M139>>>" ++ check (runes_of_ascii "packet As{ trueish @lengthOf( roots ) , }
+packet charz{}	options  { charz
+= ""a	b"" uint8x=
+    // a // b
+    4294967296 ; uint8x
+= '\x00' tag = string }
+")).
+Eval vm_compute in ("<<<T139>>>" ++ terms [mkTok 35 "packet" 1 0 false; mkTok 42 "As" 1 7 false; mkTok 2 "{" 1 9 false; mkTok 42 "trueish" 1 11 false; mkTok 7 "@lengthOf(" 1 19 false; mkTok 42 "roots" 1 30 false; mkTok 6 ")" 1 36 false; mkTok 40 "," 1 38 false; mkTok 3 "}" 1 40 false; mkTok 35 "packet" 2 0 false; mkTok 42 "charz" 2 7 false; mkTok 2 "{" 2 12 false; mkTok 3 "}" 2 13 false; mkTok 1 "options" 2 15 false; mkTok 2 "{" 2 24 false; mkTok 42 "charz" 2 26 false; mkTok 4 "=" 3 0 false; mkTok 31 (string_of_bytes [34; 97; 9; 98; 34]%N) 3 2 false; mkTok 42 "uint8x" 3 8 false; mkTok 4 "=" 3 14 false; mkTok 44 "// a // b" 4 4 true; mkTok 30 "4294967296" 5 4 false; mkTok 41 ";" 5 15 false; mkTok 42 "uint8x" 5 17 false; mkTok 4 "=" 6 0 false; mkTok 33 "'\x00'" 6 2 false; mkTok 42 "tag" 6 9 false; mkTok 4 "=" 6 13 false; mkTok 15 "string" 6 15 false; mkTok 3 "}" 6 22 false; mkTok 0 "<EOF>" 7 0 false] (mkPacket (mkPtok 35 "packet" 1 0 0) (Some (mkPtok 3 "}" 6 22 29)) [(DPacket (mkPacketDef (mkSpan (mkPtok 35 "packet" 1 0 0) (mkPtok 3 "}" 1 40 8)) None (mkPtok 35 "packet" 1 0 0) (mkPtok 42 "As" 1 7 1) (mkPtok 2 "{" 1 9 2) [(mkFieldWithAttr (mkSpan (mkPtok 42 "trueish" 1 11 3) (mkPtok 40 "," 1 38 7)) [] (LengthField (mkSpan (mkPtok 42 "trueish" 1 11 3) (mkPtok 40 "," 1 38 7)) (mkLengthFieldDecl (mkSpan (mkPtok 42 "trueish" 1 11 3) (mkPtok 40 "," 1 38 7)) None (mkPtok 42 "trueish" 1 11 3) (mkLengthOf (mkSpan (mkPtok 7 "@lengthOf(" 1 19 4) (mkPtok 6 ")" 1 36 6)) (mkPtok 7 "@lengthOf(" 1 19 4) (mkPtok 42 "roots" 1 30 5) (mkPtok 6 ")" 1 36 6)) None (mkPtok 40 "," 1 38 7))))] (mkPtok 3 "}" 1 40 8))); (DPacket (mkPacketDef (mkSpan (mkPtok 35 "packet" 2 0 9) (mkPtok 3 "}" 2 13 12)) None (mkPtok 35 "packet" 2 0 9) (mkPtok 42 "charz" 2 7 10) (mkPtok 2 "{" 2 12 11) [] (mkPtok 3 "}" 2 13 12))); (DOption (mkOptionDef (mkSpan (mkPtok 1 "options" 2 15 13) (mkPtok 3 "}" 6 22 29)) (mkPtok 1 "options" 2 15 13) (mkPtok 2 "{" 2 24 14) [(mkOptionDecl (mkSpan (mkPtok 42 "charz" 2 26 15) (mkPtok 31 (string_of_bytes [34; 97; 9; 98; 34]%N) 3 2 17)) (mkPtok 42 "charz" 2 26 15) (mkPtok 4 "=" 3 0 16) (VString (mkSpan (mkPtok 31 (string_of_bytes [34; 97; 9; 98; 34]%N) 3 2 17) (mkPtok 31 (string_of_bytes [34; 97; 9; 98; 34]%N) 3 2 17)) (mkPtok 31 (string_of_bytes [34; 97; 9; 98; 34]%N) 3 2 17)) None); (mkOptionDecl (mkSpan (mkPtok 42 "uint8x" 3 8 18) (mkPtok 41 ";" 5 15 22)) (mkPtok 42 "uint8x" 3 8 18) (mkPtok 4 "=" 3 14 19) (VDigits (mkSpan (mkPtok 30 "4294967296" 5 4 21) (mkPtok 30 "4294967296" 5 4 21)) (mkPtok 30 "4294967296" 5 4 21)) (Some (mkPtok 41 ";" 5 15 22))); (mkOptionDecl (mkSpan (mkPtok 42 "uint8x" 5 17 23) (mkPtok 33 "'\x00'" 6 2 25)) (mkPtok 42 "uint8x" 5 17 23) (mkPtok 4 "=" 6 0 24) (VPaddingChar (mkSpan (mkPtok 33 "'\x00'" 6 2 25) (mkPtok 33 "'\x00'" 6 2 25)) (mkPtok 33 "'\x00'" 6 2 25)) None); (mkOptionDecl (mkSpan (mkPtok 42 "tag" 6 9 26) (mkPtok 15 "string" 6 15 28)) (mkPtok 42 "tag" 6 9 26) (mkPtok 4 "=" 6 13 27) (VType (mkSpan (mkPtok 15 "string" 6 15 28) (mkPtok 15 "string" 6 15 28)) (TyDynamic (mkSpan (mkPtok 15 "string" 6 15 28) (mkPtok 15 "string" 6 15 28)) (mkDynamicString (mkSpan (mkPtok 15 "string" 6 15 28) (mkPtok 15 "string" 6 15 28)) (mkPtok 15 "string" 6 15 28)))) None)] (mkPtok 3 "}" 6 22 29)))])).
+Eval vm_compute in ("<<<M149>>>" ++ check (runes_of_ascii "
+root
+packet
+crc {u32 metadata
+, As  falsey//x
+`crlf
+line` , repeatCount { repeat x_y_z //	t
+{
+repeat zchar
+    crc `u8 x,`
+/// triple
+// @lengthOf(
+,
+    // trailing space 
+    } ,	char[] MetaDataX @lengthOf( Foo )
+    `" ++ [28040; 24687; 31867; 22411]%N ++ runes_of_ascii "`
+    , } , } root packet len
+    { }
+packet//x
+roots  { @tag(
+    007 )rootA
+{
+    u32
+Z9_ `doc` ,  } , repeat rootA, @tag( 1
+) @lengthOf(
+//	t
+// 50% %s
+rootA	)  u64 packetx // trailing space 
+,
+repeat f64
+    u8x ,f32 string_ `two words` , char[ 4294967296// @lengthOf(
+]  charz @calculatedFrom(
+""CRC32""	), char[]options1 , char[ 42 //
+] // a // b
+Logon @calculatedFrom(
+// c
+// @lengthOf(
+""" ++ [233]%N ++ runes_of_ascii "t" ++ [233]%N ++ runes_of_ascii """)
+    `tab	here`,@rightPad
+    ( // @lengthOf(
+' '  )match matchKey as packetx	{ 007 // trailing space 
+: len , }	,
+}
+")).
+Eval vm_compute in ("<<<M159>>>" ++ check (runes_of_ascii "MetaData matchKey { calculatedFrom A `
+` ,  }
+    options { tag=
+""\" ++ [233]%N ++ runes_of_ascii """ ; Logon = ' '
+    Header
+= true ; } options { packetx = zchar[
+    // " ++ [128512]%N ++ runes_of_ascii " emoji
+    3  ]}
+")).
+Eval vm_compute in ("<<<M169>>>" ++ check (runes_of_ascii "options { charz= ""x y""
+    ;
+}MetaData Pad
+{
+    }
+packet As
+{
+    } packet
+body { match matchKey as f32a{""a\\"" : tag ,007
+:
+    tag , 3 : //	t
+Packet ,
+[ // c
+""{,}"" // packet A { u8 x, }
+, ""a\\"" , ""{,}"" ]
+:
+// @lengthOf(
+//x
+MetaDataX  ,
+// c
+// " ++ [128512]%N ++ runes_of_ascii " emoji
+} , repeat zchar[1 ]
+    x_y_z `doc` ,
+} packet BodyLength {
+}")).
+Eval vm_compute in ("<<<M179>>>" ++ check (runes_of_ascii "
+")).
+Eval vm_compute in ("<<<M189>>>" ++ check (runes_of_ascii "options {As	= 007 x
+    // a // b
+    =
+    false ; x_y_z // trailing space 
+= ""a\\""
+//
+// 50% %s
+; }
+packet BodyLength{
+    @tag(  255
+)// " ++ [128512]%N ++ runes_of_ascii " emoji
+match trueish
+    // c
+    as Pad {
+""a\\"" : calculatedFrom	, ""a	b""//
+:leftPad
+    } , }
+MetaData calculatedFrom{
+    char[ 3 ]matchKey , char[ 4294967296  ] matchKey	, o x_y_z
+, lengthOf packetx
+    `crlf
+line`,
+// packet A { u8 x, }
+//	t
+}
+")).
+Eval vm_compute in ("<<<M199>>>" ++ check (runes_of_ascii "packet chars {repeat crc	int , falsey
+string_ `say ""hi""` ,@leftPad
+// `tick` ""quote"" 'q'
+// trailing space 
+(
+) repeat trueish `" ++ [28040; 24687; 31867; 22411]%N ++ runes_of_ascii "`, @calculatedFrom( ""1"" ) // a // b
+repeatCount  ,
+string chars // " ++ [27880; 37322]%N ++ runes_of_ascii "
+@lengthOf(// 50% %s
+calculatedFrom
+// c
+// trailing space 
+)	,
+    }root  packet//x
+uint8x { u64
+rootA  `{ , }` ,  string_ ,
+    char[]
+// c
+//
+matchKey
+    ,	char[ 255
+]
+_x
+// " ++ [27880; 37322]%N ++ runes_of_ascii "
+// 50% %s
+@calculatedFrom(
+    ""1"" ) ,rootA
+@calculatedFrom(
+""a	b"") `line1
+line2`,
+    @lengthOf( // @lengthOf(
+int
+) MetaDataX @lengthOf( msg_type ) ,
+    char[] lengthOf
+@calculatedFrom( ""a\""b"" ) `a\` , int64 A `" ++ [28040; 24687; 31867; 22411]%N ++ runes_of_ascii "` , Logon{ char[ 7 ]calculatedFrom
+,
+leftPad ,
+_x @calculatedFrom(
+""" ++ [128512]%N ++ runes_of_ascii """ )
+    ,
+repeatCount matchKey
+,  } ,
+@lengthOf( Logon )
+    zchar[ 0
+] len `a\` , } // packet A { u8 x, }")).
+Eval vm_compute in ("<<<M209>>>" ++ check (runes_of_ascii "MetaData i64_
+    { lengthOf tag ,
+char[] falsey `a\`
 /// triple
 //	t
-] As `doc` ,
-}
-    ,
-} , calculatedFrom
-{i16  o@lengthOf(
-    Logon ) `doc`, Foo u128 ,	char// @lengthOf(
-u @lengthOf(  _x
-) ,  },@tag( 1  )@rightPad // `tick` ""quote"" 'q'
-(' '
-) char[]msg_type
-// trailing space 
-// trailing space 
-, } packet
-calculatedFrom
-{
-    char[] rootA@calculatedFrom( ""a	b"" ) ,
-}	options
-//	t
-// packet A { u8 x, }
-{
-    o =
-""// no comment"" matchKey
-    = '\x00' ;
-    u
-    = """"
-leftPad = ""CRC32""; A= ""CRC32"" ; } // trailing space ")).
-Eval vm_compute in ("<<<M239>>>" ++ check (runes_of_ascii "packet x { lengthOf rootA , @rightPad
-( '0' )
-i8 asx @lengthOf( calculatedFrom // a // b
-),
-@lengthOf( Pad ) repeat //x
-int16 trueish // c
-``// " ++ [27880; 37322]%N ++ runes_of_ascii "
-, @calculatedFrom(
-""" ++ [128512]%N ++ runes_of_ascii """) @tag(0
-)
-@lengthOf( // a // b
-matchKey ) string MetaDataX`doc`
+,}
+")).
+Eval vm_compute in ("<<<T209>>>" ++ terms [mkTok 37 "MetaData" 1 0 false; mkTok 42 "i64_" 1 9 false; mkTok 2 "{" 2 4 false; mkTok 42 "lengthOf" 2 6 false; mkTok 42 "tag" 2 15 false; mkTok 40 "," 2 19 false; mkTok 16 "char[]" 3 0 false; mkTok 42 "falsey" 3 7 false; mkTok 43 "`a\`" 3 14 false; mkTok 44 "/// triple" 4 0 true; mkTok 44 (string_of_bytes [47; 47; 9; 116]%N) 5 0 true; mkTok 40 "," 6 0 false; mkTok 3 "}" 6 1 false; mkTok 0 "<EOF>" 7 0 false] (mkPacket (mkPtok 37 "MetaData" 1 0 0) (Some (mkPtok 3 "}" 6 1 12)) [(DMeta (mkMetaDef (mkSpan (mkPtok 37 "MetaData" 1 0 0) (mkPtok 3 "}" 6 1 12)) (mkPtok 37 "MetaData" 1 0 0) (mkPtok 42 "i64_" 1 9 1) (mkPtok 2 "{" 2 4 2) [(MIRef (mkRefMetaDecl (mkSpan (mkPtok 42 "lengthOf" 2 6 3) (mkPtok 40 "," 2 19 5)) (mkPtok 42 "lengthOf" 2 6 3) (mkPtok 42 "tag" 2 15 4) None (mkPtok 40 "," 2 19 5))); (MIDecl (mkMetaDecl (mkSpan (mkPtok 16 "char[]" 3 0 6) (mkPtok 40 "," 6 0 11)) (TyDynamic (mkSpan (mkPtok 16 "char[]" 3 0 6) (mkPtok 16 "char[]" 3 0 6)) (mkDynamicString (mkSpan (mkPtok 16 "char[]" 3 0 6) (mkPtok 16 "char[]" 3 0 6)) (mkPtok 16 "char[]" 3 0 6))) (mkPtok 42 "falsey" 3 7 7) (Some (mkPtok 43 "`a\`" 3 14 8)) (mkPtok 40 "," 6 0 11)))] (mkPtok 3 "}" 6 1 12)))])).
+Eval vm_compute in ("<<<M219>>>" ++ check (runes_of_ascii "  packet  matchKey {@lengthOf( Pad ) repeat int16  trueish `two words` , }")).
+Eval vm_compute in ("<<<M229>>>" ++ check (runes_of_ascii "packet
+uint8x
+    // a // b
+    {body
 ,
-i16 // `tick` ""quote"" 'q'
-options1 @lengthOf(
-    // " ++ [27880; 37322]%N ++ runes_of_ascii "
-    u8x
-    // " ++ [128512]%N ++ runes_of_ascii " emoji
-    ) `a\` ,
-    u128
-u128`line1
-line2`,}")).
-Eval vm_compute in ("<<<M249>>>" ++ check (runes_of_ascii "
-packet Header{ char[] body
-//x
+i64 uint8x
+@calculatedFrom(""`tick`""
+// @lengthOf(
 //
-, }
-")).
-Eval vm_compute in ("<<<M259>>>" ++ check (runes_of_ascii "
-root packet /// triple
-Foo { int32 tag
-    `doc` , char[0
-    ]
-    u8x`u8 x,`
-, charz charz
-    , @rightPad(' ')@tag( 3 ) @rightPad	('0' )
+)
+`u8 x,`
+, match
+    _x
+as Z9_{ [  10	, 00 ,42
+//
+// " ++ [128512]%N ++ runes_of_ascii " emoji
+,	""\n"" ,42
+, ""`tick`"" ]:x  } ,@lengthOf( metadata
+)  zchar[  00 ]	charz @calculatedFrom( ""packet"" )	`` , A
+{repeat pack {a1 @lengthOf( i64_) `" ++ [28040; 24687; 31867; 22411]%N ++ runes_of_ascii "`, packetx @lengthOf(
+body) `100% of %d`
+, repeat char[
+255// c
+] a1
+    , // trailing space 
+o rootA`line1
+line2` , }
+    , }	, uint8x{
+crc @calculatedFrom(
+    ""x y""  ) , } ,  u16 MetaDataX // " ++ [128512]%N ++ runes_of_ascii " emoji
+@lengthOf( f32a ) ,@lengthOf(
+// @lengthOf(
+// 50% %s
+i64_ ) int8// 50% %s
+f32a , @calculatedFrom(""CRC32"") string f32a
+    , } //x")).
+Eval vm_compute in ("<<<M239>>>" ++ check (runes_of_ascii "packet metadata
+    { } MetaData trueish
+// 50% %s
+//
+{ metadata Logon
+    `a\` , } packet
+rootA {	@tag( 255
+)
+len
+    @calculatedFrom( /// triple
+""a	b"") ,	repeat f32a ,
+    repeat
+    body
+// " ++ [128512]%N ++ runes_of_ascii " emoji
+// `tick` ""quote"" 'q'
+{ char[]repeatCount ,
+}
+    , string u@lengthOf(
+    _x
+) ,
+@tag(255 ) Packet @lengthOf(// c
+packetx)	,
+metadata
+@lengthOf(
+    float ) , MetaDataX @calculatedFrom(""" ++ [233]%N ++ runes_of_ascii "t" ++ [233]%N ++ runes_of_ascii """
+    )
+    ,
 repeat
-int16	float ,}
+    zchar[0 ] u8x , repeat float64 calculatedFrom
+    ,	}
 ")).
-Eval vm_compute in ("<<<M269>>>" ++ check (runes_of_ascii "
-
-")).
-Eval vm_compute in ("<<<M279>>>" ++ check (runes_of_ascii "root packet
-i8i8
-    { _x@lengthOf(chars
-),
-    char[	7]
-packetx
-    /// triple
-    `say ""hi""`
-,
-    // c
-    }root packet string_ {
-    //
-    repeat// `tick` ""quote"" 'q'
-options1// c
-`u8 x,`	,
-    }
-options {	}")).
-Eval vm_compute in ("<<<T279>>>" ++ terms [mkTok 34 "root" 1 0 false; mkTok 35 "packet" 1 5 false; mkTok 42 "i8i8" 2 0 false; mkTok 2 "{" 3 4 false; mkTok 42 "_x" 3 6 false; mkTok 7 "@lengthOf(" 3 8 false; mkTok 42 "chars" 3 18 false; mkTok 6 ")" 4 0 false; mkTok 40 "," 4 1 false; mkTok 12 "char[" 5 4 false; mkTok 30 "7" 5 10 false; mkTok 13 "]" 5 11 false; mkTok 42 "packetx" 6 0 false; mkTok 44 "/// triple" 7 4 true; mkTok 43 "`say ""hi""`" 8 4 false; mkTok 40 "," 9 0 false; mkTok 44 "// c" 10 4 true; mkTok 3 "}" 11 4 false; mkTok 34 "root" 11 5 false; mkTok 35 "packet" 11 10 false; mkTok 42 "string_" 11 17 false; mkTok 2 "{" 11 25 false; mkTok 44 "//" 12 4 true; mkTok 36 "repeat" 13 4 false; mkTok 44 "// `tick` ""quote"" 'q'" 13 10 true; mkTok 42 "options1" 14 0 false; mkTok 44 "// c" 14 8 true; mkTok 43 "`u8 x,`" 15 0 false; mkTok 40 "," 15 8 false; mkTok 3 "}" 16 4 false; mkTok 1 "options" 17 0 false; mkTok 2 "{" 17 8 false; mkTok 3 "}" 17 10 false; mkTok 0 "<EOF>" 17 11 false] (mkPacket (mkPtok 34 "root" 1 0 0) (Some (mkPtok 3 "}" 17 10 32)) [(DPacket (mkPacketDef (mkSpan (mkPtok 34 "root" 1 0 0) (mkPtok 3 "}" 11 4 17)) (Some (mkPtok 34 "root" 1 0 0)) (mkPtok 35 "packet" 1 5 1) (mkPtok 42 "i8i8" 2 0 2) (mkPtok 2 "{" 3 4 3) [(mkFieldWithAttr (mkSpan (mkPtok 42 "_x" 3 6 4) (mkPtok 40 "," 4 1 8)) [] (LengthField (mkSpan (mkPtok 42 "_x" 3 6 4) (mkPtok 40 "," 4 1 8)) (mkLengthFieldDecl (mkSpan (mkPtok 42 "_x" 3 6 4) (mkPtok 40 "," 4 1 8)) None (mkPtok 42 "_x" 3 6 4) (mkLengthOf (mkSpan (mkPtok 7 "@lengthOf(" 3 8 5) (mkPtok 6 ")" 4 0 7)) (mkPtok 7 "@lengthOf(" 3 8 5) (mkPtok 42 "chars" 3 18 6) (mkPtok 6 ")" 4 0 7)) None (mkPtok 40 "," 4 1 8)))); (mkFieldWithAttr (mkSpan (mkPtok 12 "char[" 5 4 9) (mkPtok 40 "," 9 0 15)) [] (MetaField (mkSpan (mkPtok 12 "char[" 5 4 9) (mkPtok 40 "," 9 0 15)) None (mkMetaDecl (mkSpan (mkPtok 12 "char[" 5 4 9) (mkPtok 40 "," 9 0 15)) (TyFixed (mkSpan (mkPtok 12 "char[" 5 4 9) (mkPtok 13 "]" 5 11 11)) (mkFixedString (mkSpan (mkPtok 12 "char[" 5 4 9) (mkPtok 13 "]" 5 11 11)) (mkPtok 12 "char[" 5 4 9) (mkPtok 30 "7" 5 10 10) (mkPtok 13 "]" 5 11 11))) (mkPtok 42 "packetx" 6 0 12) (Some (mkPtok 43 "`say ""hi""`" 8 4 14)) (mkPtok 40 "," 9 0 15))))] (mkPtok 3 "}" 11 4 17))); (DPacket (mkPacketDef (mkSpan (mkPtok 34 "root" 11 5 18) (mkPtok 3 "}" 16 4 29)) (Some (mkPtok 34 "root" 11 5 18)) (mkPtok 35 "packet" 11 10 19) (mkPtok 42 "string_" 11 17 20) (mkPtok 2 "{" 11 25 21) [(mkFieldWithAttr (mkSpan (mkPtok 36 "repeat" 13 4 23) (mkPtok 40 "," 15 8 28)) [] (ObjectField (mkSpan (mkPtok 36 "repeat" 13 4 23) (mkPtok 40 "," 15 8 28)) (Some (mkPtok 36 "repeat" 13 4 23)) (mkPtok 42 "options1" 14 0 25) None (Some (mkPtok 43 "`u8 x,`" 15 0 27)) (mkPtok 40 "," 15 8 28)))] (mkPtok 3 "}" 16 4 29))); (DOption (mkOptionDef (mkSpan (mkPtok 1 "options" 17 0 30) (mkPtok 3 "}" 17 10 32)) (mkPtok 1 "options" 17 0 30) (mkPtok 2 "{" 17 8 31) [] (mkPtok 3 "}" 17 10 32)))])).
-Eval vm_compute in ("<<<M289>>>" ++ check (@nil rune)).
-Eval vm_compute in ("<<<M299>>>" ++ check (runes_of_ascii "MetaData leftPad {
+Eval vm_compute in ("<<<M249>>>" ++ check (runes_of_ascii "packet pack{ repeat charz , @leftPad ()  roots @lengthOf( Packet
+)
+    `it's`  , //	t
 }
 ")).
+Eval vm_compute in ("<<<M259>>>" ++ check (runes_of_ascii "//	t
+packet repeatCount {
+    @tag( 10 //
+) int32 BodyLength @lengthOf( x_y_z ) , a1 calculatedFrom //x
+,/// triple
+}
+")).
+Eval vm_compute in ("<<<M269>>>" ++ check (runes_of_ascii "options
+    {Header// trailing space 
+= """ ++ [233]%N ++ runes_of_ascii "t" ++ [233]%N ++ runes_of_ascii """ ; Z9_= true //x
+; options1= int8
+    ; //	t
+}")).
+Eval vm_compute in ("<<<M279>>>" ++ check (runes_of_ascii "  packet
+stringy
+    {	@tag(  0 ) @calculatedFrom(
+    // 50% %s
+    ""1"") @calculatedFrom(
+"""")string chars
+    `a\` , @calculatedFrom(
+    """ ++ [28040; 24687]%N ++ runes_of_ascii """
+) asx metadata
+    `" ++ [233]%N ++ runes_of_ascii "`
+    , }")).
+Eval vm_compute in ("<<<T279>>>" ++ terms [mkTok 35 "packet" 1 2 false; mkTok 42 "stringy" 2 0 false; mkTok 2 "{" 3 4 false; mkTok 9 "@tag(" 3 6 false; mkTok 30 "0" 3 13 false; mkTok 6 ")" 3 15 false; mkTok 5 "@calculatedFrom(" 3 17 false; mkTok 44 "// 50% %s" 4 4 true; mkTok 31 """1""" 5 4 false; mkTok 6 ")" 5 7 false; mkTok 5 "@calculatedFrom(" 5 9 false; mkTok 31 """""" 6 0 false; mkTok 6 ")" 6 2 false; mkTok 15 "string" 6 3 false; mkTok 42 "chars" 6 10 false; mkTok 43 "`a\`" 7 4 false; mkTok 40 "," 7 9 false; mkTok 5 "@calculatedFrom(" 7 11 false; mkTok 31 (string_of_bytes [34; 230; 182; 136; 230; 129; 175; 34]%N) 8 4 false; mkTok 6 ")" 9 0 false; mkTok 42 "asx" 9 2 false; mkTok 42 "metadata" 9 6 false; mkTok 43 (string_of_bytes [96; 195; 169; 96]%N) 10 4 false; mkTok 40 "," 11 4 false; mkTok 3 "}" 11 6 false; mkTok 0 "<EOF>" 11 7 false] (mkPacket (mkPtok 35 "packet" 1 2 0) (Some (mkPtok 3 "}" 11 6 24)) [(DPacket (mkPacketDef (mkSpan (mkPtok 35 "packet" 1 2 0) (mkPtok 3 "}" 11 6 24)) None (mkPtok 35 "packet" 1 2 0) (mkPtok 42 "stringy" 2 0 1) (mkPtok 2 "{" 3 4 2) [(mkFieldWithAttr (mkSpan (mkPtok 9 "@tag(" 3 6 3) (mkPtok 40 "," 7 9 16)) [(FATag (mkSpan (mkPtok 9 "@tag(" 3 6 3) (mkPtok 6 ")" 3 15 5)) (mkTagAttr (mkSpan (mkPtok 9 "@tag(" 3 6 3) (mkPtok 6 ")" 3 15 5)) (mkPtok 9 "@tag(" 3 6 3) (mkPtok 30 "0" 3 13 4) (mkPtok 6 ")" 3 15 5))); (FACalculatedFrom (mkSpan (mkPtok 5 "@calculatedFrom(" 3 17 6) (mkPtok 6 ")" 5 7 9)) (mkCalculatedFrom (mkSpan (mkPtok 5 "@calculatedFrom(" 3 17 6) (mkPtok 6 ")" 5 7 9)) (mkPtok 5 "@calculatedFrom(" 3 17 6) (mkPtok 31 """1""" 5 4 8) (mkPtok 6 ")" 5 7 9))); (FACalculatedFrom (mkSpan (mkPtok 5 "@calculatedFrom(" 5 9 10) (mkPtok 6 ")" 6 2 12)) (mkCalculatedFrom (mkSpan (mkPtok 5 "@calculatedFrom(" 5 9 10) (mkPtok 6 ")" 6 2 12)) (mkPtok 5 "@calculatedFrom(" 5 9 10) (mkPtok 31 """""" 6 0 11) (mkPtok 6 ")" 6 2 12)))] (MetaField (mkSpan (mkPtok 15 "string" 6 3 13) (mkPtok 40 "," 7 9 16)) None (mkMetaDecl (mkSpan (mkPtok 15 "string" 6 3 13) (mkPtok 40 "," 7 9 16)) (TyDynamic (mkSpan (mkPtok 15 "string" 6 3 13) (mkPtok 15 "string" 6 3 13)) (mkDynamicString (mkSpan (mkPtok 15 "string" 6 3 13) (mkPtok 15 "string" 6 3 13)) (mkPtok 15 "string" 6 3 13))) (mkPtok 42 "chars" 6 10 14) (Some (mkPtok 43 "`a\`" 7 4 15)) (mkPtok 40 "," 7 9 16)))); (mkFieldWithAttr (mkSpan (mkPtok 5 "@calculatedFrom(" 7 11 17) (mkPtok 40 "," 11 4 23)) [(FACalculatedFrom (mkSpan (mkPtok 5 "@calculatedFrom(" 7 11 17) (mkPtok 6 ")" 9 0 19)) (mkCalculatedFrom (mkSpan (mkPtok 5 "@calculatedFrom(" 7 11 17) (mkPtok 6 ")" 9 0 19)) (mkPtok 5 "@calculatedFrom(" 7 11 17) (mkPtok 31 (string_of_bytes [34; 230; 182; 136; 230; 129; 175; 34]%N) 8 4 18) (mkPtok 6 ")" 9 0 19)))] (ObjectField (mkSpan (mkPtok 42 "asx" 9 2 20) (mkPtok 40 "," 11 4 23)) None (mkPtok 42 "asx" 9 2 20) (Some (mkPtok 42 "metadata" 9 6 21)) (Some (mkPtok 43 (string_of_bytes [96; 195; 169; 96]%N) 10 4 22)) (mkPtok 40 "," 11 4 23)))] (mkPtok 3 "}" 11 6 24)))])).
+Eval vm_compute in ("<<<M289>>>" ++ check (runes_of_ascii "MetaData charz{	char[ 42 ]metadata ,  uint32  options1 // c
+,} MetaData stringy { char[
+0123456789] Logon // packet A { u8 x, }
+`crlf
+line` ,}packet
+f32a { falsey @lengthOf( Packet ) ,string //
+trueish ,zchar[ 255
+    ]
+msg_type @lengthOf(  Packet
+    ) ,float32 MetaDataX
+@calculatedFrom( ""abc"" ), string rootA
+@lengthOf(
+tag ) `` ,@lengthOf(BodyLength // a // b
+) Packet { u32 chars
+`" ++ [28040; 24687; 31867; 22411]%N ++ runes_of_ascii "`
+, falsey,
+} , @lengthOf( _x ) @tag( 255
+) @calculatedFrom( ""abc"" )chars	`
+`
+    , repeat _x metadata // c
+, repeat char[ 0123456789 ] pack , @lengthOf( f32a	)
+    //	t
+    @calculatedFrom(
+""" ++ [28040; 24687]%N ++ runes_of_ascii """ ) @lengthOf(
+// a // b
+// " ++ [128512]%N ++ runes_of_ascii " emoji
+Logon ) // " ++ [27880; 37322]%N ++ runes_of_ascii "
+repeat lengthOf {
+    i8i8 { zchar @calculatedFrom( """ ++ [28040; 24687]%N ++ runes_of_ascii """ ) `crlf
+line` , } ,char[
+65535  ] u8x , int32
+chars@lengthOf( leftPad	) `100% of %d`//x
+, repeat x , }
+    //
+    ,
+}")).
+Eval vm_compute in ("<<<M299>>>" ++ check (runes_of_ascii "MetaData Packet
+{ }")).
 Eval vm_compute in ("<<<M309>>>" ++ check (runes_of_ascii "
-asx
-{ Z9_ Header// " ++ [128512]%N ++ runes_of_ascii " emoji
-,} packet pack
-    { }
+crc	{ char[] Z9_`{ , }`,} options { tag =
+    false } packet
+// a // b
+// @lengthOf(
+Pad {Foo @calculatedFrom( // `tick` ""quote"" 'q'
+""a\\"" ) ,
+    trueish ,
+    char[ 00]
+    // " ++ [128512]%N ++ runes_of_ascii " emoji
+    packetx , }
 ")).
-Eval vm_compute in ("<<<M319>>>" ++ check (runes_of_ascii "packet
-asx
- Z9_ Header// " ++ [128512]%N ++ runes_of_ascii " emoji
-,} packet pack
-    { }
+Eval vm_compute in ("<<<M319>>>" ++ check (runes_of_ascii "MetaData
+crc	 char[] Z9_`{ , }`,} options { tag =
+    false } packet
+// a // b
+// @lengthOf(
+Pad {Foo @calculatedFrom( // `tick` ""quote"" 'q'
+""a\\"" ) ,
+    trueish ,
+    char[ 00]
+    // " ++ [128512]%N ++ runes_of_ascii " emoji
+    packetx , }
 ")).
-Eval vm_compute in ("<<<M329>>>" ++ check (runes_of_ascii "packet
-asx
-{ Z9_ // " ++ [128512]%N ++ runes_of_ascii " emoji
-,} packet pack
-    { }
+Eval vm_compute in ("<<<M329>>>" ++ check (runes_of_ascii "MetaData
+crc	{ char[] `{ , }`,} options { tag =
+    false } packet
+// a // b
+// @lengthOf(
+Pad {Foo @calculatedFrom( // `tick` ""quote"" 'q'
+""a\\"" ) ,
+    trueish ,
+    char[ 00]
+    // " ++ [128512]%N ++ runes_of_ascii " emoji
+    packetx , }
 ")).
-Eval vm_compute in ("<<<M339>>>" ++ check (runes_of_ascii "packet
-asx
-{ Z9_ Header// " ++ [128512]%N ++ runes_of_ascii " emoji
-, packet pack
-    { }
+Eval vm_compute in ("<<<M339>>>" ++ check (runes_of_ascii "MetaData
+crc	{ char[] Z9_`{ , }`} options { tag =
+    false } packet
+// a // b
+// @lengthOf(
+Pad {Foo @calculatedFrom( // `tick` ""quote"" 'q'
+""a\\"" ) ,
+    trueish ,
+    char[ 00]
+    // " ++ [128512]%N ++ runes_of_ascii " emoji
+    packetx , }
 ")).
-Eval vm_compute in ("<<<M349>>>" ++ check (runes_of_ascii "packet
-asx
-{ Z9_ Header// " ++ [128512]%N ++ runes_of_ascii " emoji
-,} packet 
-    { }
+Eval vm_compute in ("<<<M349>>>" ++ check (runes_of_ascii "MetaData
+crc	{ char[] Z9_`{ , }`,}  { tag =
+    false } packet
+// a // b
+// @lengthOf(
+Pad {Foo @calculatedFrom( // `tick` ""quote"" 'q'
+""a\\"" ) ,
+    trueish ,
+    char[ 00]
+    // " ++ [128512]%N ++ runes_of_ascii " emoji
+    packetx , }
 ")).
-Eval vm_compute in ("<<<M359>>>" ++ check (runes_of_ascii "packet
-asx
-{ Z9_ Header// " ++ [128512]%N ++ runes_of_ascii " emoji
-,} packet pack
-    { 
+Eval vm_compute in ("<<<M359>>>" ++ check (runes_of_ascii "MetaData
+crc	{ char[] Z9_`{ , }`,} options {  =
+    false } packet
+// a // b
+// @lengthOf(
+Pad {Foo @calculatedFrom( // `tick` ""quote"" 'q'
+""a\\"" ) ,
+    trueish ,
+    char[ 00]
+    // " ++ [128512]%N ++ runes_of_ascii " emoji
+    packetx , }
 ")).
-Eval vm_compute in ("<<<M369>>>" ++ check (runes_of_ascii "packet
-asx
-{ Z9_ Header// " ++ [128512]%N ++ runes_of_ascii " emoji
-,} packet pack
-   " ++ [65279]%N ++ runes_of_ascii " { }
+Eval vm_compute in ("<<<M369>>>" ++ check (runes_of_ascii "MetaData
+crc	{ char[] Z9_`{ , }`,} options { tag =
+     } packet
+// a // b
+// @lengthOf(
+Pad {Foo @calculatedFrom( // `tick` ""quote"" 'q'
+""a\\"" ) ,
+    trueish ,
+    char[ 00]
+    // " ++ [128512]%N ++ runes_of_ascii " emoji
+    packetx , }
 ")).
-Eval vm_compute in ("<<<M379>>>" ++ check (runes_of_ascii "packet
-asx
-{ Z@x9_ Header// " ++ [128512]%N ++ runes_of_ascii " emoji
-,} packet pack
-    { }
+Eval vm_compute in ("<<<M379>>>" ++ check (runes_of_ascii "MetaData
+crc	{ char[] Z9_`{ , }`,} options { tag =
+    false } 
+// a // b
+// @lengthOf(
+Pad {Foo @calculatedFrom( // `tick` ""quote"" 'q'
+""a\\"" ) ,
+    trueish ,
+    char[ 00]
+    // " ++ [128512]%N ++ runes_of_ascii " emoji
+    packetx , }
 ")).
-Eval vm_compute in ("<<<M389>>>" ++ check (@nil rune)).
-Eval vm_compute in ("<<<M399>>>" ++ check (runes_of_ascii "MetaData o")).
-Eval vm_compute in ("<<<M409>>>" ++ check (runes_of_ascii "MetaData o { char[")).
-Eval vm_compute in ("<<<M419>>>" ++ check (runes_of_ascii "MetaData o { char[ // `tick` ""quote"" 'q'
-3]")).
-Eval vm_compute in ("<<<M429>>>" ++ check (runes_of_ascii "MetaData o { char[ // `tick` ""quote"" 'q'
-3] body,")).
-Eval vm_compute in ("<<<M439>>>" ++ check (runes_of_ascii "MetaData o { char[ // `tick` ""quote"" 'q'
-3] body, } packet")).
-Eval vm_compute in ("<<<M449>>>" ++ check (runes_of_ascii "MetaData o { char[ // `tick` ""quote"" 'q'
-3] body, } packet o{")).
-Eval vm_compute in ("<<<M459>>>" ++ check (runes_of_ascii "MetaData o { char[ // `tick` ""quote"" 'q'
-3] body, } packet o{
-u8
-charz")).
-Eval vm_compute in ("<<<M469>>>" ++ check (runes_of_ascii "MetaData o { char[ // `tick` ""quote"" 'q'
-3] body, } packet o# {
-u8
-charz ,
-    }")).
-Eval vm_compute in ("<<<M479>>>" ++ check (runes_of_ascii "MetaData o { char[ // `tick` ""quote"" 'q'
-3] body, } packet /o{
-u8
-charz ,
-    }")).
-Eval vm_compute in ("<<<M489>>>" ++ check (runes_of_ascii "= {calculatedFrom =	int8 ;}
-
+Eval vm_compute in ("<<<M389>>>" ++ check (runes_of_ascii "MetaData
+crc	{ char[] Z9_`{ , }`,} options { tag =
+    false } packet
+// a // b
+// @lengthOf(
+Pad Foo @calculatedFrom( // `tick` ""quote"" 'q'
+""a\\"" ) ,
+    trueish ,
+    char[ 00]
+    // " ++ [128512]%N ++ runes_of_ascii " emoji
+    packetx , }
 ")).
-Eval vm_compute in ("<<<M499>>>" ++ check (runes_of_ascii "options {i64 =	int8 ;}
-
+Eval vm_compute in ("<<<M399>>>" ++ check (runes_of_ascii "MetaData
+crc	{ char[] Z9_`{ , }`,} options { tag =
+    false } packet
+// a // b
+// @lengthOf(
+Pad {Foo  // `tick` ""quote"" 'q'
+""a\\"" ) ,
+    trueish ,
+    char[ 00]
+    // " ++ [128512]%N ++ runes_of_ascii " emoji
+    packetx , }
 ")).
-Eval vm_compute in ("<<<M509>>>" ++ check (runes_of_ascii "options {calculatedFrom =	packet ;}
-
+Eval vm_compute in ("<<<M409>>>" ++ check (runes_of_ascii "MetaData
+crc	{ char[] Z9_`{ , }`,} options { tag =
+    false } packet
+// a // b
+// @lengthOf(
+Pad {Foo @calculatedFrom( // `tick` ""quote"" 'q'
+""a\\""  ,
+    trueish ,
+    char[ 00]
+    // " ++ [128512]%N ++ runes_of_ascii " emoji
+    packetx , }
 ")).
-Eval vm_compute in ("<<<M519>>>" ++ check (runes_of_ascii "options {calculatedFrom =	int8 ;")).
-Eval vm_compute in ("<<<M529>>>" ++ check (runes_of_ascii "options {calculatedFrom =	int8 ;}
-
-?")).
-Eval vm_compute in ("<<<M539>>>" ++ check (runes_of_ascii "options {" ++ [21517; 23383]%N ++ runes_of_ascii " =	int8 ;}
-
+Eval vm_compute in ("<<<M419>>>" ++ check (runes_of_ascii "MetaData
+crc	{ char[] Z9_`{ , }`,} options { tag =
+    false } packet
+// a // b
+// @lengthOf(
+Pad {Foo @calculatedFrom( // `tick` ""quote"" 'q'
+""a\\"" ) ,
+     ,
+    char[ 00]
+    // " ++ [128512]%N ++ runes_of_ascii " emoji
+    packetx , }
 ")).
-Eval vm_compute in ("<<<M549>>>" ++ check (runes_of_ascii "
-MetaData chars {Logon packetx,
-    float calculatedFrom
-,  ")).
-Eval vm_compute in ("<<<M559>>>" ++ check (runes_of_ascii "
-MetaData chars {Logon packetx,
-    float calculatedFrom
-',  u32 i64_ ,	}")).
+Eval vm_compute in ("<<<M429>>>" ++ check (runes_of_ascii "MetaData
+crc	{ char[] Z9_`{ , }`,} options { tag =
+    false } packet
+// a // b
+// @lengthOf(
+Pad {Foo @calculatedFrom( // `tick` ""quote"" 'q'
+""a\\"" ) ,
+    trueish ,
+     00]
+    // " ++ [128512]%N ++ runes_of_ascii " emoji
+    packetx , }
+")).
+Eval vm_compute in ("<<<M439>>>" ++ check (runes_of_ascii "MetaData
+crc	{ char[] Z9_`{ , }`,} options { tag =
+    false } packet
+// a // b
+// @lengthOf(
+Pad {Foo @calculatedFrom( // `tick` ""quote"" 'q'
+""a\\"" ) ,
+    trueish ,
+    char[ 00
+    // " ++ [128512]%N ++ runes_of_ascii " emoji
+    packetx , }
+")).
+Eval vm_compute in ("<<<M449>>>" ++ check (runes_of_ascii "MetaData
+crc	{ char[] Z9_`{ , }`,} options { tag =
+    false } packet
+// a // b
+// @lengthOf(
+Pad {Foo @calculatedFrom( // `tick` ""quote"" 'q'
+""a\\"" ) ,
+    trueish ,
+    char[ 00]
+    // " ++ [128512]%N ++ runes_of_ascii " emoji
+    packetx  }
+")).
+Eval vm_compute in ("<<<M459>>>" ++ check (runes_of_ascii "MetaData
+crc	{ char[] Z9_`{ , }`,} options { tag =
+    false } packet
+// a // b
+// @lengthOf(
+Pad {Foo @calculate")).
+Eval vm_compute in ("<<<M469>>>" ++ check (runes_of_ascii "MetaData
+crc	{ char[] Z9_`{ , }`,} options { tag =
+    false } packet
+// a // b
+// @lengthOf(
+Pad {Foo @calculatedFrom( // `tick` ""quote"" 'q'
+""a\\"" ) ,
+    trueish ,
+    "" char[ 00]
+    // " ++ [128512]%N ++ runes_of_ascii " emoji
+    packetx , }
+")).
+Eval vm_compute in ("<<<M479>>>" ++ check (runes_of_ascii "MetaData
+crc	{ char[] Z9_`{ , }`,} options { caf" ++ [233]%N ++ runes_of_ascii "_1 =
+    false } packet
+// a // b
+// @lengthOf(
+Pad {Foo @calculatedFrom( // `tick` ""quote"" 'q'
+""a\\"" ) ,
+    trueish ,
+    char[ 00]
+    // " ++ [128512]%N ++ runes_of_ascii " emoji
+    packetx , }
+")).
+Eval vm_compute in ("<<<M489>>>" ++ check (runes_of_ascii "root packet _x	{ @rightPad (
+' ' ) string u8x @lengthOf(
+    _x
+) , repeat Pad  { // " ++ [128512]%N ++ runes_of_ascii " emoji
+As
+// `tick` ""quote"" 'q'
+//x
+{matchKey chars, ,
+} , }, }")).
+Eval vm_compute in ("<<<M499>>>" ++ check (runes_of_ascii "root packet _x	{ @rightPad @rightPad (
+' ' ) string u8x @lengthOf(
+    _x
+) , repeat Pad  { // " ++ [128512]%N ++ runes_of_ascii " emoji
+As
+// `tick` ""quote"" 'q'
+//x
+{matchKey chars,
+} , }, }")).
+Eval vm_compute in ("<<<M509>>>" ++ check (runes_of_ascii "root packet _x	{ @rightPad (
+' ' ) string u8x @lengthOf(
+    _x
+) , repeat [  { // " ++ [128512]%N ++ runes_of_ascii " emoji
+As
+// `tick` ""quote"" 'q'
+//x
+{matchKey chars,
+} , }, }")).
+Eval vm_compute in ("<<<M519>>>" ++ check (runes_of_ascii "root packet _x	{ @rightPad (
+' '  string u8x @lengthOf(
+    _x
+) , repeat Pad  { // " ++ [128512]%N ++ runes_of_ascii " emoji
+As
+// `tick` ""quote"" 'q'
+//x
+{matchKey chars,
+} , }, }")).
+Eval vm_compute in ("<<<M529>>>" ++ check (runes_of_ascii "root packet _x	{ @rightPad (
+' ' ) string u8x @lengthOf(
+    _x
+) , repeat Pad  { // " ++ [128512]%N ++ runes_of_ascii " emoji
+" ++ [21517; 23383]%N ++ runes_of_ascii "
+// `tick` ""quote"" 'q'
+//x
+{matchKey chars,
+} , }, }")).
+Eval vm_compute in ("<<<M539>>>" ++ check (runes_of_ascii "root packet _x	{ { @rightPad (
+' ' ) string u8x @lengthOf(
+    _x
+) , repeat Pad  { // " ++ [128512]%N ++ runes_of_ascii " emoji
+As
+// `tick` ""quote"" 'q'
+//x
+{matchKey chars,
+} , }, }")).
+Eval vm_compute in ("<<<M549>>>" ++ check (runes_of_ascii "root packet _x	{ @rightPad")).
+Eval vm_compute in ("<<<M559>>>" ++ check (runes_of_ascii "root packet _x	{ @rightPad (
+' ' ) string u8x @lengthOf(
+    _x
+) , repeat Pad  { // " ++ [128512]%N ++ runes_of_ascii " emoji
+As
+// `tick` ""quote"" 'q'
+//x
+{matchKey chars,
+} , } }, }")).
 Eval vm_compute in ("<<<M569>>>" ++ check (runes_of_ascii "// only a comment")).
-Eval vm_compute in ("<<<M579>>>" ++ check (runes_of_ascii "uint32 ]")).
-Eval vm_compute in ("<<<M589>>>" ++ check ([65533; 65533; 1186]%N ++ runes_of_ascii "2s" ++ [18]%N ++ runes_of_ascii "nCd" ++ [65533]%N ++ runes_of_ascii ":" ++ [65533; 65533]%N ++ runes_of_ascii "0" ++ [65533; 65533]%N ++ runes_of_ascii """" ++ [65533]%N ++ runes_of_ascii "\%" ++ [65533; 65533]%N)).
-Eval vm_compute in ("<<<M599>>>" ++ check (runes_of_ascii "`say ""hi""` { i16 = @tag(")).
+Eval vm_compute in ("<<<T569>>>" ++ terms [mkTok 44 "// only a comment" 1 0 true; mkTok 0 "<EOF>" 1 17 false] (mkPacket (mkPtok 0 "<EOF>" 1 17 1) None [])).
+Eval vm_compute in ("<<<M579>>>" ++ check (runes_of_ascii "char as ( i32 @lengthOf( uint64 '0' true char true {")).
+Eval vm_compute in ("<<<M589>>>" ++ check ([65533; 65533; 65533]%N ++ runes_of_ascii "E" ++ [0; 65533; 65533]%N ++ runes_of_ascii "^k" ++ [65533]%N ++ runes_of_ascii "(" ++ [65533]%N ++ runes_of_ascii "f" ++ [65533; 1901; 24; 65533; 7]%N ++ runes_of_ascii "-" ++ [22; 1669; 65533; 21]%N ++ runes_of_ascii "E*" ++ [6; 65533]%N ++ runes_of_ascii "=" ++ [65533; 65533]%N ++ runes_of_ascii "5" ++ [65533]%N ++ runes_of_ascii "e")).
+Eval vm_compute in ("<<<M599>>>" ++ check (runes_of_ascii "char[ u64 ""packet"" MetaData _x u64 packet string u8 0 @lengthOf( repeat")).
